@@ -5,7 +5,7 @@
    back-end-free specification "execute all phases in order on descriptors nobody reads"; at exit
    every registered context has been offered every byte written to it and is closed iff its peer
    terminated.  The three outcomes are therefore equal. *)
-From MV Require Import C13.Model C13.ProofsLife C13.ProofsIso C13.ProofsRead C13.ProofsAgree.
+From MV Require Import C13.Model C13.ProofsLife C13.ProofsIso C13.ProofsRead C13.ProofsAgree C13.ProofsFix.
 From Coq Require Import Permutation.
 
 Definition flat (sc : script) : bool :=
@@ -37,7 +37,6 @@ Record PC (c d : cst) : Prop := mkPC {
 }.
 
 Record GC (s sg : st) : Prop := mkGC {
-  g_trigs : trigs s = [];
   g_bk : bk sg = BSelect;
   g_pc : forall x, PC (cx s x) (cx sg x);
   g_reg : forall x, cregok (cx s x) = true <-> (In x (clist s) \/ cclosed (cx s x) = true)
@@ -65,20 +64,18 @@ Lemma Fl_view : forall s s', cx s' = cx s -> Fl s -> Fl s'.
 Proof. intros s s' A H x. rewrite A. apply H. Qed.
 
 (* update of one context on both sides *)
-Lemma GC_upd : forall s sg y c' d' s' sg', GC s sg -> Fl s -> PC c' d' ->
-  cregok c' = cregok (cx s y) -> cclosed c' = cclosed (cx s y) -> cflag c' = cflag (cx s y) ->
+Lemma GC_upd : forall s sg y c' d' s' sg', GC s sg -> PC c' d' ->
+  cregok c' = cregok (cx s y) -> cclosed c' = cclosed (cx s y) ->
   cx s' = (fun z => if Nat.eqb z y then c' else cx s z) ->
   cx sg' = (fun z => if Nat.eqb z y then d' else cx sg z) ->
-  clist s' = clist s -> trigs s' = trigs s -> bk sg' = bk sg ->
-  GC s' sg' /\ Fl s'.
+  clist s' = clist s -> bk sg' = bk sg ->
+  GC s' sg'.
 Proof.
-  intros s sg y c' d' s' sg' G F P R C L E1 E2 E3 E4 E5. destruct G. split.
-  - constructor; rewrite ?E1, ?E2, ?E3, ?E4, ?E5; auto.
-    + intros x. destruct (Nat.eqb x y); auto.
-    + intros x. destruct (Nat.eqb x y) eqn:E; auto.
-      apply Nat.eqb_eq in E. subst x. rewrite R, C. auto.
-  - intros x. rewrite E1. destruct (Nat.eqb x y) eqn:E; [|apply F].
-    apply Nat.eqb_eq in E. subst x. rewrite L, C. apply F.
+  intros s sg y c' d' s' sg' G P R C E1 E2 E3 E5. destruct G.
+  constructor; rewrite ?E1, ?E2, ?E3, ?E5; auto.
+  - intros x. destruct (Nat.eqb x y); auto.
+  - intros x. destruct (Nat.eqb x y) eqn:E; auto.
+    apply Nat.eqb_eq in E. subst x. rewrite R, C. auto.
 Qed.
 
 Ltac cxeq := simpl; rewrite ?cx_edge; simpl; rewrite ?cx_edge; reflexivity.
@@ -92,14 +89,14 @@ Proof.
 Qed.
 
 (* one scripted action, executed by the loop's state and by the specification *)
-Lemma lock_do_act : forall a s sg, phase_act_ok a = true -> Inv s -> GC s sg -> Fl s ->
+Lemma lock_do_act : forall a s sg, phase_act_ok a = true -> Inv s -> GC s sg ->
   (bk s = BPoll -> is_add a = true -> length (parr s) < pcap s) ->
-  GC (do_act a s) (do_act a sg) /\ Fl (do_act a s).
+  GC (do_act a s) (do_act a sg).
 Proof.
-  intros a s sg Hok I G F Hcap.
+  intros a s sg Hok I G Hcap.
   pose proof (g_pc _ _ G) as PCx. pose proof (g_bk _ _ G) as Bsg.
-  assert (SKIP : forall e e', GC (emit e s) (emit e' sg) /\ Fl (emit e s)).
-  { intros. split; [eapply GC_view2; [| | | | |apply G]; auto|apply F]. }
+  assert (SKIP : forall e e', GC (emit e s) (emit e' sg)).
+  { intros. eapply GC_view2; [| | | | |apply G]; auto. }
   destruct a; try discriminate; unfold do_act.
   - (* write *)
     rewrite <- (pc_can_write _ _ (PCx y)).
@@ -108,13 +105,13 @@ Proof.
     { unfold can_write in CW. destruct (cclosed (cx s y)); auto. rewrite Bool.andb_false_r in CW. discriminate. }
     destruct (PCx y).
     destruct (Nat.eqb k 0);
-      (eapply (GC_upd s sg y); [apply G|apply F| | | | |cxeq|cxeq|prj|prj|prj]);
+      (eapply (GC_upd s sg y); [apply G| | | |cxeq|cxeq|prj|prj]);
       try (simpl; reflexivity); constructor; simpl; auto; try lia; intros; congruence.
   - (* half-close *)
     destruct (PCx y). rewrite <- p_po0, <- p_eof0.
     destruct (cpopen (cx s y) && negb (ceof (cx s y))) eqn:CW; [|apply SKIP].
     apply Bool.andb_true_iff in CW. destruct CW as [CP CE].
-    eapply (GC_upd s sg y); [apply G|apply F| | | | |cxeq|cxeq|prj|prj|prj].
+    eapply (GC_upd s sg y); [apply G| | | |cxeq|cxeq|prj|prj].
     all: try (simpl; reflexivity).
     constructor; simpl; auto.
     unfold is_pipe. rewrite p_kind0. auto.
@@ -125,7 +122,7 @@ Proof.
     { unfold is_tcp. rewrite p_kind0, p_eof0. auto. }
     rewrite <- TE.
     destruct (is_tcp (cx s y) && ceof (cx s y));
-      (eapply (GC_upd s sg y); [apply G|apply F| | | | |cxeq|cxeq|prj|prj|prj]);
+      (eapply (GC_upd s sg y); [apply G| | | |cxeq|cxeq|prj|prj]);
       try (simpl; reflexivity); constructor; simpl; auto.
   - (* add *)
     destruct (PCx y). rewrite <- p_add0.
@@ -145,24 +142,60 @@ Proof.
     { pose proof (bk_add_ctx y (updc y d1 sg)) as E. rewrite As2 in E. simpl in E. congruence. }
     assert (NC : cclosed (cx s y) = false).
     { destruct (cclosed (cx s y)) eqn:C; auto. apply (i_cladd s I) in C. congruence. }
-    split.
-    + constructor; simpl; rewrite ?X1, ?X2, ?X3, ?Y1; simpl; auto.
-      * apply G.
-      * intros x. destruct (Nat.eqb x y) eqn:E; [|apply PCx].
-        apply Nat.eqb_eq in E. subst x. rewrite !Nat.eqb_refl. simpl.
-        constructor; simpl; auto. intros; discriminate.
-      * intros x. pose proof (g_reg _ _ G x) as R.
-        destruct (Nat.eqb x y) eqn:E.
-        -- apply Nat.eqb_eq in E. subst x. rewrite !Nat.eqb_refl. simpl. split; auto.
-           intros _. left. apply in_or_app. right; left; auto.
-        -- apply Nat.eqb_neq in E. rewrite R. split.
-           ++ intros [H|H]; auto. left. apply in_or_app; auto.
-           ++ intros [H|H]; auto. apply in_app_or in H. destruct H as [H|[H|[]]]; auto; congruence.
-    + intros x. simpl. rewrite X1. simpl.
-      destruct (Nat.eqb x y) eqn:E; [|apply F].
-      apply Nat.eqb_eq in E. subst x. rewrite !Nat.eqb_refl. simpl. apply F.
+    constructor; simpl; rewrite ?X1, ?X2, ?X3, ?Y1; simpl; auto.
+    + intros x. destruct (Nat.eqb x y) eqn:E; [|apply PCx].
+      apply Nat.eqb_eq in E. subst x. rewrite !Nat.eqb_refl. simpl.
+      constructor; simpl; auto. intros; discriminate.
+    + intros x. pose proof (g_reg _ _ G x) as R.
+      destruct (Nat.eqb x y) eqn:E.
+      * apply Nat.eqb_eq in E. subst x. rewrite !Nat.eqb_refl. simpl. split; auto.
+        intros _. left. apply in_or_app. right; left; auto.
+      * apply Nat.eqb_neq in E. rewrite R. split.
+        -- intros [H|H]; auto. left. apply in_or_app; auto.
+        -- intros [H|H]; auto. apply in_app_or in H. destruct H as [H|[H|[]]]; auto; congruence.
   - (* wake *)
-    split; [eapply GC_view2; [| | | | |apply G]; prj; try cxeq|eapply Fl_view; [|apply F]; cxeq].
+    eapply GC_view2; [| | | | |apply G]; prj; try cxeq.
+Qed.
+
+(* scripted actions (other than shutdown) leave the CLOSED flag and the closed state of every context
+   alone, and never re-open a peer *)
+Definition flagsame (s s' : st) : Prop :=
+  forall z, cflag (cx s' z) = cflag (cx s z) /\ cclosed (cx s' z) = cclosed (cx s z) /\
+            (ceof (cx s z) = true -> ceof (cx s' z) = true) /\ coff (cx s' z) = coff (cx s z).
+Lemma flagsame_refl : forall s, flagsame s s.
+Proof. intros s z. auto. Qed.
+Lemma flagsame_trans : forall a b c, flagsame a b -> flagsame b c -> flagsame a c.
+Proof.
+  intros a b c H1 H2 z. destruct (H1 z) as (A1 & A2 & A3 & A4), (H2 z) as (B1 & B2 & B3 & B4).
+  repeat split; try congruence. auto.
+Qed.
+Lemma flagsame_Fl : forall s s', flagsame s s' -> Fl s -> Fl s'.
+Proof. intros s s' H F z. destruct (H z) as (A & B & _). rewrite A, B. apply F. Qed.
+Lemma flagsame_Flx : forall x s s', flagsame s s' -> Flx x s -> Flx x s'.
+Proof.
+  intros x s s' H [F1 F2]. split.
+  - intros z Hz. destruct (H z) as (A & B & _). rewrite A, B. apply F1; auto.
+  - destruct (H x) as (A & _ & C & _). rewrite A. intros K. apply C. auto.
+Qed.
+
+Lemma flags_do_act : forall a s, phase_act_ok a = true -> flagsame s (do_act a s).
+Proof.
+  intros a s Hok z. destruct a; try discriminate; unfold do_act.
+  - destruct (can_write (cx s y)); [|simpl; auto].
+    destruct (Nat.eqb k 0); simpl; rewrite ?cx_edge; simpl;
+      (destruct (Nat.eqb z y) eqn:E; auto; apply Nat.eqb_eq in E; subst; simpl; auto).
+  - destruct (cpopen (cx s y) && negb (ceof (cx s y))); [|simpl; auto].
+    simpl. rewrite cx_edge. simpl. destruct (Nat.eqb z y) eqn:E; auto.
+    apply Nat.eqb_eq in E. subst. simpl. auto.
+  - destruct (cpopen (cx s y)); [|simpl; auto].
+    destruct (is_tcp (cx s y) && ceof (cx s y)); simpl; rewrite ?cx_edge; simpl;
+      (destruct (Nat.eqb z y) eqn:E; auto; apply Nat.eqb_eq in E; subst; simpl; auto).
+  - destruct (cadded (cx s y) || Nat.eqb y 0); [simpl; auto|].
+    set (c1 := mkC _ _ _ _ _ _ true _ _ _).
+    destruct (add_ctx_other y (updc y c1 s)) as (_ & _ & _ & D & _).
+    destruct (add_ctx y (updc y c1 s)) as [s1 ok]. simpl in D. simpl. rewrite D. simpl.
+    destruct (Nat.eqb z y) eqn:E; auto. apply Nat.eqb_eq in E. subst. rewrite Nat.eqb_refl. simpl. auto.
+  - simpl. rewrite cx_edge. auto.
 Qed.
 
 (* ------------------------------------------------------------------ frame facts for actions *)
@@ -198,29 +231,29 @@ Proof.
 Qed.
 
 (* a whole phase, with the capacity budget K reserved for the phases still to come *)
-Lemma lock_do_acts : forall l s sg K, forallb phase_act_ok l = true -> Inv s -> GC s sg -> Fl s ->
+Lemma lock_do_acts : forall l s sg K, forallb phase_act_ok l = true -> Inv s -> GC s sg ->
   (bk s = BPoll -> length (parr s) + count_adds l + K <= pcap s) ->
-  Inv (do_acts l s) /\ GC (do_acts l s) (do_acts l sg) /\ Fl (do_acts l s) /\
+  Inv (do_acts l s) /\ GC (do_acts l s) (do_acts l sg) /\ flagsame s (do_acts l s) /\
   (bk s = BPoll -> length (parr (do_acts l s)) + K <= pcap s) /\
   bk (do_acts l s) = bk s /\ pcap (do_acts l s) = pcap s /\ ecap (do_acts l s) = ecap s /\
   idle (do_acts l s) = idle s /\ toexit (do_acts l s) = toexit s.
 Proof.
-  induction l as [|a l IH]; intros s sg K Hok I G F Hcap; simpl.
-  - split; [auto|]. split; [auto|]. split; [auto|]. split; [|repeat split; auto].
+  induction l as [|a l IH]; intros s sg K Hok I G Hcap; simpl.
+  - split; [auto|]. split; [auto|]. split; [apply flagsame_refl|]. split; [|repeat split; auto].
     intros B. specialize (Hcap B). unfold count_adds in Hcap. simpl in Hcap. lia.
   - simpl in Hok. apply Bool.andb_true_iff in Hok. destruct Hok as [Ha Hl].
     rewrite count_adds_cons in Hcap.
     destruct (do_act_frame a s) as (F1 & F2 & F3 & F4 & F5 & F6).
-    destruct (lock_do_act a s sg Ha I G F) as [G1 Fl1].
-    { intros B A. specialize (Hcap B). rewrite A in Hcap. lia. }
+    assert (G1 : GC (do_act a s) (do_act a sg)).
+    { apply lock_do_act; auto. intros B A. specialize (Hcap B). rewrite A in Hcap. lia. }
     destruct (Inv_do_act a s I) as [I1 _].
-    destruct (IH (do_act a s) (do_act a sg) K Hl I1 G1 Fl1) as (A1 & A2 & A3 & A4 & A5 & A6 & A7 & A8 & A9).
+    destruct (IH (do_act a s) (do_act a sg) K Hl I1 G1) as (A1 & A2 & A3 & A4 & A5 & A6 & A7 & A8 & A9).
     { rewrite F1, F2. intros B. specialize (Hcap B). destruct (is_add a); lia. }
-    split; [auto|]. split; [auto|]. split; [auto|]. split; [rewrite <- F2; rewrite F1 in A4; auto|].
+    split; [auto|]. split; [auto|].
+    split; [apply (flagsame_trans _ (do_act a s)); [apply flags_do_act; auto|auto]|].
+    split; [rewrite <- F2; rewrite F1 in A4; auto|].
     rewrite A5, A6, A7, A8, A9, F1, F2, F3, F4, (F5 Ha). repeat split; auto.
 Qed.
-
-(* ------------------------------------------------------------------ a visit *)
 
 (* ------------------------------------------------------------------ a visit *)
 Definition rd_ctx (c : cst) : cst :=
@@ -228,10 +261,14 @@ Definition rd_ctx (c : cst) : cst :=
       (cflag c || (if is_pipe c then ceof c else ceof c || csht c))
       (cadded c) (cregok c) (cclosed c) (coff c + cq c).
 
-(* read callback in the flat class: no trigger fires *)
-Lemma cb_read_flat : forall x s, trigs s = [] ->
-  cb_read x s = set_trigs [] (emit (ERead x (cq (cx s x))) (updc x (rd_ctx (cx s x)) s)).
-Proof. intros x s H. unfold cb_read, rd_ctx. simpl. rewrite H. simpl. reflexivity. Qed.
+(* the read callback = drain and flag ([rd_mid]), then the actions of the triggers it fires *)
+Definition rd_fire (x : nat) (s : st) : list trigger :=
+  filter (trig_hit x (coff (cx s x) + cq (cx s x))) (trigs s).
+Definition rd_mid (x : nat) (s : st) : st :=
+  set_trigs (filter (fun t => negb (trig_hit x (coff (cx s x) + cq (cx s x)) t)) (trigs s))
+            (emit (ERead x (cq (cx s x))) (updc x (rd_ctx (cx s x)) s)).
+Lemma cb_read_split : forall x s, cb_read x s = do_acts (map tact (rd_fire x s)) (rd_mid x s).
+Proof. intros. reflexivity. Qed.
 
 Lemma Fl_clist : forall s x, Inv s -> Fl s -> In x (clist s) -> cflag (cx s x) = false.
 Proof.
@@ -239,18 +276,26 @@ Proof.
   apply F in E. destruct (i_reg s I x H) as (_ & _ & C). congruence.
 Qed.
 
-Lemma gc_cb_read : forall x s sg, GC s sg -> Fl s -> Inv s -> In x (clist s) ->
-  GC (cb_read x s) sg /\ Flx x (cb_read x s) /\
-  cflag (cx (cb_read x s) x) = ceof (cx s x) /\
-  (cflag (cx (cb_read x s) x) = false -> events_c (cx (cb_read x s) x) = 0).
+Lemma Inv_rd_mid : forall x s, Inv s -> In x (clist s) -> Inv (rd_mid x s).
 Proof.
-  intros x s sg G F I Hin. rewrite (cb_read_flat x s (g_trigs _ _ G)).
+  intros x s I Hin. unfold rd_mid.
+  eapply Inv_view; [apply sv_set_trigs|]. apply Inv_emit_read; [simpl; auto|].
+  eapply Inv_view; [apply sv_updc|apply I]; auto.
+Qed.
+
+Lemma gc_rd_mid : forall x s sg, GC s sg -> Fl s -> Inv s -> In x (clist s) ->
+  GC (rd_mid x s) sg /\ Flx x (rd_mid x s) /\
+  cflag (cx (rd_mid x s) x) = ceof (cx s x) /\
+  (cflag (cx (rd_mid x s) x) = false -> events_c (cx (rd_mid x s) x) = 0) /\
+  cx (rd_mid x s) x = rd_ctx (cx s x) /\ (forall z, z <> x -> cx (rd_mid x s) z = cx s z).
+Proof.
+  intros x s sg G F I Hin. unfold rd_mid.
   pose proof (g_pc _ _ G x) as P. destruct P.
   pose proof (Fl_clist s x I F Hin) as NF.
   assert (RG : cregok (cx s x) = true) by (apply (g_reg _ _ G); auto).
   assert (FE : cflag (rd_ctx (cx s x)) = ceof (cx s x)).
   { unfold rd_ctx. simpl. rewrite NF, p_sht0. simpl. destruct (is_pipe (cx s x)); auto. apply Bool.orb_false_r. }
-  split; [|split; [|split]].
+  split; [|split; [|split; [|split; [|split]]]].
   - destruct G. constructor; simpl; auto.
     + intros z. destruct (Nat.eqb z x) eqn:E; auto. apply Nat.eqb_eq in E. subst z.
       unfold rd_ctx. constructor; simpl; auto; try lia. intros; congruence.
@@ -264,6 +309,8 @@ Proof.
     unfold events_c, ev_in, ev_hup, rd_ctx. simpl. rewrite CE, p_sht0.
     destruct (cpopen (cx s x)) eqn:PO; [|rewrite (p_po_eof0 eq_refl) in CE; discriminate].
     destruct (ckind (cx s x)); simpl; auto.
+  - simpl. rewrite Nat.eqb_refl. auto.
+  - intros z Hz. simpl. apply Nat.eqb_neq in Hz. rewrite Hz. auto.
 Qed.
 
 Lemma hup_eof : forall c d, PC c d -> ev_hup c = true -> ceof c = true.
@@ -333,208 +380,470 @@ Qed.
 (* ------------------------------------------------------------------ the invariant of a flat run *)
 Definition Quiet (s : st) : Prop := forall x, In x (clist s) -> events_c (cx s x) = 0.
 
-Section FlatRun.
-Variable sgfin : st.     (* the specification's final state *)
 
-Record GI (s sg : st) : Prop := mkGI {
-  gi_inv : Inv s;
-  gi_gc : GC s sg;
-  gi_fl : Fl s;
-  gi_ph : forallb phase_act_ok (concat (phases s)) = true;
-  gi_cap : bk s = BPoll -> length (parr s) + count_adds (concat (phases s)) <= pcap s;
-  gi_fin : do_acts (concat (phases s)) sg = sgfin
+Lemma wk_edge : forall x s, wk (edge x s) = wk s.
+Proof. intros. unfold edge. destruct (_ && _); auto. Qed.
+Lemma idle_edge : forall x s, idle (edge x s) = idle s.
+Proof. intros. unfold edge. destruct (_ && _); auto. Qed.
+Lemma toexit_edge : forall x s, toexit (edge x s) = toexit s.
+Proof. intros. unfold edge. destruct (_ && _); auto. Qed.
+Lemma pcap_edge : forall x s, pcap (edge x s) = pcap s.
+Proof. intros. unfold edge. destruct (_ && _); auto. Qed.
+
+Lemma Quiet_view : forall s s', cx s' = cx s -> clist s' = clist s -> Quiet s -> Quiet s'.
+Proof. intros s s' A B Q x Hx. rewrite A. apply Q. rewrite <- B. auto. Qed.
+
+Section FlatRun.
+Variable sgfin : st.     (* the specification's final ghost *)
+
+(* The invariant of a run.  E = ghost at the start of the current epoch (all phases so far and all
+   earlier epochs' triggers executed, nothing read), U = triggers not fired at the epoch's start,
+   h = triggers fired in this epoch, in firing order, sg = the ghost now.  fm = Some x while
+   context x is being visited (it may be flagged and not yet closed). *)
+Record GT (E : st) (U : list trigger) (fm : option nat) (s sg : st) (h : list trigger) : Prop := mkGT {
+  gt_inv : Inv s;
+  gt_gc : GC s sg;
+  gt_fl : match fm with None => Fl s | Some x => Flx x s end;
+  gt_ph : forallb phase_act_ok (concat (phases s)) = true;
+  gt_cap : bk s = BPoll -> length (parr s) + count_adds (concat (phases s)) <= pcap s;
+  gt_fin : spec_go E U (phases s) = sgfin;
+  gt_ghost : sg = do_acts (map tact h) E;
+  gt_trigs : trigs s = filter (fun t => negb (memt h t)) U;
+  gt_ndU : NoDup U;
+  gt_ndh : NoDup h;
+  gt_hU : incl h U;
+  gt_w : forall t, In t U -> is_write (tact t) = true /\ 1 <= tbytes t;
+  gt_just : Just E U h;
+  gt_coff : forall t, In t (trigs s) -> coff (cx s (tctx t)) < tbytes t;
+  gt_bkE : bk E = BSelect
 }.
+Definition GX (E : st) (U : list trigger) (s : st) : Prop := exists sg h, GT E U None s sg h.
 
 Lemma do_acts_app : forall l1 l2 s, do_acts (l1 ++ l2) s = do_acts l2 (do_acts l1 s).
 Proof. intros. unfold do_acts. apply fold_left_app. Qed.
 
-(* the wake callback: plain, or idle = next phase / exit *)
-Lemma hw_GI : forall s sg, GI s sg -> toexit s = false ->
-  exists sg',
-    Inv (handle_wakeup s) /\ GC (handle_wakeup s) sg' /\ Fl (handle_wakeup s) /\
-    forallb phase_act_ok (concat (phases (handle_wakeup s))) = true /\
-    (bk s = BPoll -> length (parr (handle_wakeup s)) + count_adds (concat (phases (handle_wakeup s))) <= pcap s) /\
-    do_acts (concat (phases (handle_wakeup s))) sg' = sgfin /\
+Lemma GX_inv : forall E U s, GX E U s -> Inv s.
+Proof. intros E U s (sg & h & G). apply G. Qed.
+
+(* only cx, ctx_list, triggers, phases and the poll capacity matter *)
+Lemma GT_view : forall E U fm s s' sg h, GT E U fm s sg h -> Inv s' ->
+  cx s' = cx s -> clist s' = clist s -> trigs s' = trigs s -> phases s' = phases s ->
+  bk s' = bk s -> pcap s' = pcap s -> length (parr s') <= length (parr s) -> GT E U fm s' sg h.
+Proof.
+  intros E U fm s s' sg h [] I' A B C D B' P L. constructor; rewrite ?A, ?B, ?C, ?D; auto.
+  - eapply GC_view2; [| | | | |apply gt_gc0]; auto.
+  - destruct fm; [destruct gt_fl0 as [F1 F2]; split; rewrite ?A; auto|intros z; rewrite A; apply gt_fl0].
+  - rewrite B', P. intros Bp. specialize (gt_cap0 Bp). lia.
+Qed.
+
+Lemma GX_view : forall E U s s', GX E U s -> Inv s' ->
+  cx s' = cx s -> clist s' = clist s -> trigs s' = trigs s -> phases s' = phases s ->
+  bk s' = bk s -> pcap s' = pcap s -> length (parr s') <= length (parr s) -> GX E U s'.
+Proof. intros E U s s' (sg & h & G) I' A B C D B' P L. exists sg, h. eapply GT_view; eauto. Qed.
+
+Lemma GC_cxeq : forall s sg sg', GC s sg -> (forall x, cx sg' x = cx sg x) -> bk sg' = BSelect -> GC s sg'.
+Proof. intros s sg sg' [] H B. constructor; auto. intros x. rewrite H. auto. Qed.
+
+Lemma bk_do_acts : forall l s, bk (do_acts l s) = bk s.
+Proof.
+  induction l as [|a l IH]; intros; simpl; auto. rewrite IH. destruct (do_act_frame a s) as (F & _). auto.
+Qed.
+
+(* facts about the ghost *)
+Lemma GT_ghost_cx : forall E U fm s sg h, GT E U fm s sg h -> forall y,
+  cx sg y = addq (cx E y) (if can_write (cx E y) then ws U (memt h) y else 0) /\ bk sg = BSelect.
+Proof.
+  intros E U fm s sg h [] y. subst sg. split.
+  - apply ghost_hist; auto. intros t Ht. apply gt_w0; auto.
+  - rewrite bk_do_acts. auto.
+Qed.
+
+(* at quiescence the fired set is closed, hence the least fixpoint: the ghost is the canonical one *)
+Lemma quiet_closed : forall E U s sg h, GT E U None s sg h -> Quiet s ->
+  forall t, In t U -> en E U (memt h) t = true -> memt h t = true.
+Proof.
+  intros E U s sg h G Q t Ht EN.
+  destruct (memt h t) eqn:M; auto. exfalso.
+  pose proof (gt_coff _ _ _ _ _ _ G t) as CO.
+  assert (In t (trigs s)) as Hts.
+  { rewrite (gt_trigs _ _ _ _ _ _ G). apply filter_In. split; auto. rewrite M. auto. }
+  specialize (CO Hts).
+  unfold en in EN. apply Bool.andb_true_iff in EN. destruct EN as [RG LE]. apply Nat.leb_le in LE.
+  set (x := tctx t) in *.
+  destruct (GT_ghost_cx _ _ _ _ _ _ G x) as [CXg _].
+  pose proof (g_pc _ _ (gt_gc _ _ _ _ _ _ G) x) as P. destruct P.
+  assert (cq (cx sg x) = tot E U (memt h) x) as TQ by (rewrite CXg; unfold tot, addq; simpl; auto).
+  assert (cregok (cx s x) = true) as RS by (rewrite p_reg0, CXg; unfold addq; simpl; auto).
+  assert (cq (cx s x) = 0) as Q0.
+  { destruct (proj1 (g_reg _ _ (gt_gc _ _ _ _ _ _ G) x) RS) as [Hin|Hc].
+    - apply (events_zero _ _ (g_pc _ _ (gt_gc _ _ _ _ _ _ G) x) (Q x Hin)).
+    - auto. }
+  lia.
+Qed.
+
+Lemma quiet_cxeq : forall E U s sg h, GT E U None s sg h -> Quiet s ->
+  (forall t, In t U -> memt h t = LP E U t) /\ forall y, cx (settle E U) y = cx sg y.
+Proof.
+  intros E U s sg h G Q.
+  assert (L : forall t, In t U -> memt h t = LP E U t).
+  { apply closed_is_lfp; try apply G. apply (quiet_closed E U s sg h G Q). }
+  split; auto. intros y.
+  destruct (GT_ghost_cx _ _ _ _ _ _ G y) as [A _].
+  destruct (ghost_settle E U y) as [B _]; [intros t Ht; apply (gt_w _ _ _ _ _ _ G); auto|].
+  rewrite A, B. f_equal. destruct (can_write (cx E y)); auto. apply ws_ext. intros t Ht. symmetry. auto.
+Qed.
+
+Lemma filter_true : forall {A} (l : list A), filter (fun _ => true) l = l.
+Proof. induction l; simpl; auto. f_equal. auto. Qed.
+
+(* the wake callback: plain, or idle = next phase (a new epoch starts) / exit *)
+Lemma hw_GT : forall E U s, GX E U s -> toexit s = false -> (idle s = true -> Quiet s) ->
+  exists E' U',
+    GX E' U' (handle_wakeup s) /\
     idle (handle_wakeup s) = false /\
     bk (handle_wakeup s) = bk s /\ pcap (handle_wakeup s) = pcap s /\ ecap (handle_wakeup s) = ecap s /\
     ext s (handle_wakeup s) /\
-    (idle s = false -> sg' = sg /\ toexit (handle_wakeup s) = false /\ cx (handle_wakeup s) = cx s /\
+    (idle s = false -> E' = E /\ U' = U /\ toexit (handle_wakeup s) = false /\ cx (handle_wakeup s) = cx s /\
                        clist (handle_wakeup s) = clist s /\ phases (handle_wakeup s) = phases s) /\
     (toexit (handle_wakeup s) = true ->
-       sg' = sg /\ phases (handle_wakeup s) = [] /\ cx (handle_wakeup s) = cx s /\ clist (handle_wakeup s) = clist s).
+       E' = E /\ U' = U /\ phases (handle_wakeup s) = [] /\ cx (handle_wakeup s) = cx s /\
+       clist (handle_wakeup s) = clist s).
 Proof.
-  intros s sg [I G F PH CAP FIN] EX.
-  destruct (Inv_handle_wakeup s I) as [IW EW].
+  intros E U s (sg & h & G) EX QI.
+  destruct (Inv_handle_wakeup s (gt_inv _ _ _ _ _ _ G)) as [IW EW].
   unfold handle_wakeup in *.
   set (s1 := emit EWake (set_wk 0 s)) in *.
-  assert (G1 : GC s1 sg) by (eapply GC_view2; [| | | | |apply G]; auto).
-  assert (F1 : Fl s1) by (eapply Fl_view; [|apply F]; auto).
+  assert (I1 : Inv s1).
+  { apply Inv_emit_quiet; [exact Logic.I|]. eapply Inv_view; [apply sv_set_wk|apply G]. }
+  assert (G1 : GT E U None s1 sg h) by (eapply GT_view; eauto).
   destruct (idle s1) eqn:ID.
   - set (s2 := set_idle false s1) in *.
-    assert (G2 : GC s2 sg) by (eapply GC_view2; [| | | | |apply G1]; auto).
-    assert (F2 : Fl s2) by (eapply Fl_view; [|apply F1]; auto).
-    assert (I2 : Inv s2).
-    { eapply Inv_view; [apply sv_set_idle|]. apply Inv_emit_quiet; [exact Logic.I|].
-      eapply Inv_view; [apply sv_set_wk|auto]. }
+    assert (I2 : Inv s2) by (eapply Inv_view; [apply sv_set_idle|auto]).
+    assert (G2 : GT E U None s2 sg h) by (eapply GT_view; eauto).
     assert (IDs : idle s = true) by (simpl in ID; auto).
     destruct (phases s2) as [|p rest] eqn:P; simpl in P.
     + (* after the last phase: exit *)
-      exists sg. split; auto.
-      split; [eapply GC_view2; [| | | | |apply G2]; auto|].
-      split; [eapply Fl_view; [|apply F2]; auto|].
-      split; [simpl; rewrite P; auto|].
-      split; [simpl; rewrite P; intros B; specialize (CAP B); rewrite P in CAP; auto|].
-      split; [simpl; rewrite P; rewrite P in FIN; auto|].
+      exists E, U. split.
+      { exists sg, h. eapply GT_view; [apply G2| | | | | | | |]; simpl; auto. }
       split; [simpl; auto|]. split; [simpl; auto|]. split; [simpl; auto|]. split; [simpl; auto|].
       split; [auto|]. split; [intros C; congruence|].
       intros _. simpl. rewrite P. auto.
-    + (* the next phase *)
-      rewrite P in PH, CAP, FIN. simpl in PH, CAP, FIN.
+    + (* the next phase: the epoch ends, the ghost becomes the canonical one *)
+      pose proof (QI IDs) as Q.
+      assert (Q2 : Quiet s2) by (eapply Quiet_view; [| |apply Q]; auto).
+      destruct (quiet_cxeq E U s2 sg h G2 Q2) as [LL CXE].
+      destruct G2 as [I2' GC2 F2 PH CAP FIN GH TR NDU NDH HU W J CO BE].
+      simpl in PH, CAP, FIN. rewrite P in PH, CAP, FIN. simpl in PH, CAP, FIN.
       rewrite forallb_app in PH. apply Bool.andb_true_iff in PH. destruct PH as [PH1 PH2].
       rewrite count_adds_app in CAP.
+      set (C := settle E U) in *.
+      assert (BC : bk C = BSelect).
+      { destruct (ghost_settle E U 0) as [_ B]; [intros t Ht; apply W; auto|]. unfold C. congruence. }
+      assert (GCC : GC s2 C) by (eapply GC_cxeq; eauto).
       set (s3 := set_phases rest s2) in *.
       assert (I3 : Inv s3) by (eapply Inv_view; [apply sv_set_phases|auto]).
-      assert (G3 : GC s3 sg) by (eapply GC_view2; [| | | | |apply G2]; auto).
-      assert (F3 : Fl s3) by (eapply Fl_view; [|apply F2]; auto).
-      destruct (lock_do_acts p s3 sg (count_adds (concat rest)) PH1 I3 G3 F3) as (A1 & A2 & A3 & A4 & A5 & A6 & A7 & A8 & A9).
+      assert (G3 : GC s3 C) by (eapply GC_view2; [| | | | |apply GCC]; auto).
+      destruct (lock_do_acts p s3 C (count_adds (concat rest)) PH1 I3 G3) as (A1 & A2 & A3 & A4 & A5 & A6 & A7 & A8 & A9).
       { simpl. intros B. specialize (CAP B). lia. }
-      destruct (do_acts_facts p s3) as (_ & D2 & _ & _).
-      exists (do_acts p sg). split; auto. split; auto. split; auto.
-      split; [rewrite D2; simpl; auto|].
-      split; [rewrite D2; simpl; intros B; specialize (A4 B); simpl in A4; auto|].
-      split; [rewrite D2; simpl; rewrite <- do_acts_app; auto|].
+      destruct (do_acts_facts p s3) as (D1 & D2 & _ & _).
+      exists (do_acts p C), (unf E U). split.
+      { exists (do_acts p C), []. apply mkGT.
+        - (* inv *) auto.
+        - (* gc *) auto.
+        - (* fl *) eapply flagsame_Fl; [apply A3|]. intros z. apply F2.
+        - (* ph *) rewrite D2. simpl. auto.
+        - (* cap *) rewrite D2, A6. simpl. rewrite A5. simpl. intros B. specialize (A4 B). simpl in A4. auto.
+        - (* fin *) rewrite D2. simpl. auto.
+        - (* ghost *) simpl. auto.
+        - (* trigs *) rewrite D1. simpl. simpl in TR. rewrite TR. unfold unf. rewrite filter_true.
+          apply filter_ext_in. intros t Ht. rewrite (LL t Ht). auto.
+        - (* ndU *) unfold unf. apply NoDup_filter. auto.
+        - (* ndh *) constructor.
+        - (* hU *) intros t [].
+        - (* w *) intros t Ht. unfold unf in Ht. apply filter_In in Ht. apply W. tauto.
+        - (* just *) intros pre t post Eq. destruct pre; discriminate.
+        - (* coff *) rewrite D1. simpl. intros t Ht. destruct (A3 (tctx t)) as (_ & _ & _ & CF). rewrite CF. simpl.
+          apply CO. simpl. auto.
+        - (* bkE *) rewrite bk_do_acts. auto. }
       split; [rewrite A8; simpl; auto|]. split; [rewrite A5; simpl; auto|].
       split; [rewrite A6; simpl; auto|]. split; [rewrite A7; simpl; auto|].
-      split; [auto|]. split; [intros C; congruence|].
-      rewrite A9. simpl. intros C. congruence.
-  - exists sg. split; auto. split; auto. split; auto. split; [simpl; auto|].
-    split; [simpl; intros B; apply CAP; auto|]. split; [simpl; auto|].
-    split; [auto|]. split; [auto|]. split; [auto|]. split; [auto|]. split; [auto|].
-    split.
+      split; [auto|]. split; [intros C0; congruence|].
+      rewrite A9. simpl. intros C0. congruence.
+  - exists E, U. split; [exists sg, h; auto|]. split; [auto|]. split; [auto|]. split; [auto|]. split; [auto|].
+    split; [auto|]. split.
     + intros _. simpl. repeat split; auto.
     + simpl. intros C. congruence.
 Qed.
 
 (* ------------------------------------------------------------------ generic visit steps *)
+(* what a visit leaves alone (the epoll ready list may grow: writes wake their targets) *)
 Record frame (s s' : st) : Prop := mkFr {
   fr_clist : clist s' = clist s; fr_phases : phases s' = phases s; fr_toexit : toexit s' = toexit s;
   fr_idle : idle s' = idle s; fr_bk : bk s' = bk s; fr_pcap : pcap s' = pcap s; fr_ecap : ecap s' = ecap s;
   fr_parr : parr s' = parr s; fr_sset : sset s' = sset s; fr_ereg : ereg s' = ereg s;
-  fr_erdl : erdl s' = erdl s; fr_wk : wk s' = wk s
+  fr_wk : wk s' = wk s
 }.
 Lemma frame_refl : forall s, frame s s. Proof. intros; constructor; auto. Qed.
 Lemma frame_trans : forall a b c, frame a b -> frame b c -> frame a c.
 Proof. intros a b c [] []. constructor; congruence. Qed.
 
-Lemma visit_read : forall (rd : bool) x s sg, Inv s -> GC s sg -> Fl s -> In x (clist s) ->
-  let s1 := if rd then cb_read x s else s in
-  Inv s1 /\ GC s1 sg /\ Flx x s1 /\ frame s s1 /\ (forall z, z <> x -> cx s1 z = cx s z) /\
-  (events_c (cx s x) = 0 -> cflag (cx s1 x) = false -> events_c (cx s1 x) = 0) /\
-  (rd = true -> cflag (cx s1 x) = false -> events_c (cx s1 x) = 0) /\
-  ceof (cx s1 x) = ceof (cx s x) /\ ckind (cx s1 x) = ckind (cx s x) /\ cpopen (cx s1 x) = cpopen (cx s x) /\
-  ext s s1 /\ (cflag (cx s1 x) = true -> cq (cx s1 x) = 0) /\ (rd = false -> cx s1 x = cx s x) /\
-  (rd = true -> cq (cx s1 x) = 0).
+Lemma frame_do_write : forall z k s, frame s (do_act (AWrite z k) s).
 Proof.
-  intros rd x s sg I G F Hin. destruct rd; cbv zeta.
-  - destruct (gc_cb_read x s sg G F I Hin) as (A & B & C & D).
-    destruct (Inv_cb_read x s I Hin) as (I1 & E1 & _).
-    split; auto. split; auto. split; auto.
-    rewrite (cb_read_flat x s (g_trigs _ _ G)) in *.
-    split; [constructor; simpl; auto|].
-    split; [intros z Hz; simpl; apply Nat.eqb_neq in Hz; rewrite Hz; auto|].
-    split; [intros _; apply D|]. split; [intros _; apply D|].
-    split; [simpl; rewrite Nat.eqb_refl; auto|]. split; [simpl; rewrite Nat.eqb_refl; auto|].
-    split; [simpl; rewrite Nat.eqb_refl; auto|]. split; [auto|].
-    split; [simpl; rewrite Nat.eqb_refl; auto|]. split; [intros; discriminate|].
-    simpl; rewrite Nat.eqb_refl; auto.
-  - split; auto. split; auto. split; [apply Fl_Flx; auto|]. split; [apply frame_refl|].
-    split; auto. split; auto. split; [intros; discriminate|]. split; [auto|]. split; [auto|]. split; [auto|].
-    split; [apply ext_refl|]. split; [intros C; rewrite (Fl_clist s x I F Hin) in C; discriminate|].
-    split; [auto|intros; discriminate].
+  intros. unfold do_act. destruct (can_write (cx s z)); [destruct (Nat.eqb k 0)|]; constructor; simpl;
+    rewrite ?clist_edge, ?phases_edge, ?toexit_edge, ?idle_edge, ?bk_edge, ?pcap_edge, ?parr_edge, ?sset_edge, ?ereg_edge, ?wk_edge; auto;
+    unfold edge; destruct (_ && _); auto.
 Qed.
 
-Lemma visit_flag : forall (fl : bool) x s sg, Inv s -> GC s sg -> Flx x s ->
+Lemma frame_do_writes : forall l s, all_writes l -> frame s (do_acts (map tact l) s).
+Proof.
+  induction l as [|t l IH]; intros s W; simpl; [apply frame_refl|].
+  assert (Wt : is_write (tact t) = true) by (apply W; left; auto).
+  destruct (tact t) as [z k| | | | | |]; try discriminate.
+  eapply frame_trans; [apply frame_do_write|apply IH]. intros u Hu. apply W. right; auto.
+Qed.
+
+Lemma NoDup_app_intro : forall {A} (a b : list A), NoDup a -> NoDup b -> (forall x, In x a -> ~ In x b) -> NoDup (a ++ b).
+Proof.
+  induction a as [|h a IH]; intros b Na Nb D; simpl; auto.
+  inversion Na; subst. constructor.
+  - intro C. apply in_app_or in C. destruct C as [C|C]; auto. apply (D h); auto. left; auto.
+  - apply IH; auto. intros x Hx. apply D. right; auto.
+Qed.
+
+Lemma memt_app : forall a b t, memt (a ++ b) t = memt a t || memt b t.
+Proof. intros. unfold memt. apply existsb_app. Qed.
+
+(* the read callback of a registered context: drain, fire the triggers whose threshold is reached *)
+Lemma gt_cb_read : forall E U s sg h x, GT E U None s sg h -> In x (clist s) ->
+  exists sg1 h1, GT E U (Some x) (cb_read x s) sg1 h1 /\ frame s (cb_read x s) /\ ext s (cb_read x s) /\
+    cflag (cx (cb_read x s) x) = ceof (cx s x) /\
+    (cflag (cx (cb_read x s) x) = true -> cq (cx (cb_read x s) x) = 0) /\
+    ceof (cx (cb_read x s) x) = ceof (cx s x) /\
+    (cflag (cx (cb_read x s) x) = false -> events_c (cx (rd_mid x s) x) = 0).
+Proof.
+  intros E U s sg h x G Hin.
+  destruct G as [I GCs F PH CAP FIN GH TR NDU NDH HU W J CO BE].
+  destruct (gc_rd_mid x s sg GCs F I Hin) as (GM & FM & FE & DR & CXM & OTH).
+  pose proof (Inv_rd_mid x s I Hin) as IM.
+  destruct (Inv_cb_read x s I Hin) as (I1 & E1 & _).
+  rewrite cb_read_split in *.
+  set (mid := rd_mid x s) in *. set (fire := rd_fire x s) in *.
+  set (off := coff (cx s x) + cq (cx s x)) in *.
+  assert (FS : forall t, In t fire -> In t (trigs s) /\ trig_hit x off t = true).
+  { intros t Ht. unfold fire, rd_fire in Ht. apply filter_In in Ht. tauto. }
+  assert (FU : forall t, In t fire -> In t U /\ memt h t = false).
+  { intros t Ht. destruct (FS t Ht) as [A _]. rewrite TR in A. apply filter_In in A. destruct A as [A B].
+    split; auto. apply Bool.negb_true_iff in B. auto. }
+  assert (WF : all_writes fire) by (intros t Ht; apply W; apply FU; auto).
+  assert (OKF : forallb phase_act_ok (map tact fire) = true).
+  { apply forallb_forall. intros a Ha. apply in_map_iff in Ha. destruct Ha as (t & <- & Ht).
+    pose proof (WF t Ht). destruct (tact t); try discriminate; auto. }
+  assert (NA : count_adds (map tact fire) = 0).
+  { clear - WF. induction fire as [|t l IH]; auto. rewrite map_cons, count_adds_cons.
+    assert (is_write (tact t) = true) by (apply WF; left; auto).
+    rewrite IH by (intros u Hu; apply WF; right; auto). destruct (tact t); try discriminate; auto. }
+  destruct (lock_do_acts (map tact fire) mid sg (count_adds (concat (phases mid))) OKF IM GM) as (A1 & A2 & A3 & A4 & A5 & A6 & A7 & A8 & A9).
+  { rewrite NA. unfold mid, rd_mid. simpl. intros B. specialize (CAP B). lia. }
+  pose proof (frame_do_writes fire mid WF) as FRW.
+  assert (FRM : frame s mid) by (unfold mid, rd_mid; constructor; simpl; auto).
+  pose proof (frame_trans _ _ _ FRM FRW) as FR.
+  destruct (do_acts_facts (map tact fire) mid) as (D1 & D2 & _ & _).
+  assert (CXW : forall z, cx (do_acts (map tact fire) mid) z =
+                addq (cx mid z) (if can_write (cx mid z) then wsl fire z else 0)).
+  { intros z. apply (ghost_w fire mid z WF). }
+  exists (do_acts (map tact fire) sg), (h ++ fire).
+  split.
+  { apply mkGT.
+  - (* inv *) auto.
+  - (* gc *) auto.
+  - (* fl *) eapply flagsame_Flx; eauto.
+  - (* ph *) rewrite (fr_phases _ _ FR). auto.
+  - (* cap *) rewrite (fr_bk _ _ FR), (fr_parr _ _ FR), (fr_phases _ _ FR), (fr_pcap _ _ FR). auto.
+  - (* fin *) rewrite (fr_phases _ _ FR). auto.
+  - (* ghost *) rewrite GH, map_app, do_acts_app. auto.
+  - (* trigs *) rewrite D1. unfold mid, rd_mid. simpl. rewrite TR.
+    assert (forall (f g : trigger -> bool) l, filter f (filter g l) = filter (fun t => g t && f t) l) as FF.
+    { induction l as [|a l IHl]; simpl; auto. destruct (g a); simpl; [destruct (f a); rewrite IHl; auto|auto]. }
+    rewrite FF. apply filter_ext_in. intros t Ht. rewrite memt_app.
+    destruct (memt h t) eqn:M; simpl; auto.
+    fold off. destruct (trig_hit x off t) eqn:HT; simpl.
+    + assert (In t fire) as Hf.
+      { unfold fire, rd_fire. fold off. apply filter_In. split; auto. rewrite TR. apply filter_In. split; auto. rewrite M. auto. }
+      apply memt_In in Hf. rewrite Hf. auto.
+    + destruct (memt fire t) eqn:MF; auto. apply memt_In in MF. destruct (FS t MF) as [_ K]. congruence.
+  - (* ndU *) auto.
+  - (* ndh *) apply NoDup_app_intro; auto.
+    + unfold fire, rd_fire. apply NoDup_filter. rewrite TR. apply NoDup_filter. auto.
+    + intros t Ht Hf. destruct (FU t Hf) as [_ K]. apply memt_In in Ht. congruence.
+  - (* hU *) intros t Ht. apply in_app_or in Ht. destruct Ht as [Ht|Ht]; [apply HU; auto|apply FU; auto].
+  - (* w *) auto.
+  - (* just *) apply Just_app; auto. intros pre t post Eq.
+    assert (In t fire) as Hf by (rewrite Eq; apply in_or_app; right; left; auto).
+    destruct (FS t Hf) as [_ HT]. unfold trig_hit in HT. apply Bool.andb_true_iff in HT. destruct HT as [TX TB].
+    apply Nat.eqb_eq in TX. apply Nat.leb_le in TB.
+    unfold en. rewrite TX.
+    assert (GT0 : GT E U None s sg h) by (apply mkGT; auto).
+    destruct (GT_ghost_cx _ _ _ _ _ _ GT0 x) as [CXg _].
+    pose proof (g_pc _ _ GCs x) as P. destruct P.
+    assert (cregok (cx s x) = true) as RS by (apply (g_reg _ _ GCs); auto).
+    assert (cregok (cx E x) = true) as -> by (rewrite p_reg0, CXg in RS; unfold addq in RS; simpl in RS; auto).
+    simpl. apply Nat.leb_le.
+    assert (cq (cx sg x) = tot E U (memt h) x) as TQ by (rewrite CXg; unfold tot, addq; simpl; auto).
+    assert (tot E U (memt h) x <= tot E U (memt (h ++ pre)) x).
+    { unfold tot. pose proof (ws_mono U (memt h) (memt (h ++ pre)) x) as M.
+      destruct (can_write (cx E x)); [|lia]. apply Nat.add_le_mono_l. apply M.
+      intros u _ Hu. rewrite memt_app, Hu. auto. }
+    lia.
+  - (* coff *) intros t Ht. rewrite D1 in Ht. unfold mid, rd_mid in Ht. simpl in Ht. apply filter_In in Ht. destruct Ht as [Ht NH].
+    rewrite CXW. unfold addq. simpl.
+    destruct (Nat.eq_dec (tctx t) x) as [TX|TX].
+    + rewrite TX, Nat.eqb_refl. unfold rd_ctx. simpl.
+      apply Bool.negb_true_iff in NH. unfold trig_hit in NH. rewrite TX, Nat.eqb_refl in NH. simpl in NH.
+      apply Nat.leb_gt in NH. auto.
+    + apply Nat.eqb_neq in TX. rewrite TX. apply CO. auto.
+  - (* bkE *) auto. }
+  split; auto. split; auto.
+    assert (CFx : cflag (cx (do_acts (map tact fire) mid) x) = ceof (cx s x)).
+    { destruct (A3 x) as (CF & _). rewrite CF. auto. }
+    split; auto. split; [|split].
+    + intros K. rewrite CFx in K. rewrite CXW, CXM.
+      assert (can_write (rd_ctx (cx s x)) = false) as ->.
+      { unfold can_write, rd_ctx. simpl. rewrite K. simpl. rewrite Bool.andb_false_r. auto. }
+      unfold addq, rd_ctx. simpl. auto.
+    + rewrite CXW, CXM. unfold addq, rd_ctx. simpl. auto.
+    + rewrite CFx. intros K. apply DR. rewrite FE. auto.
+Qed.
+
+Lemma visit_read : forall (rd : bool) E U s x, GX E U s -> In x (clist s) ->
+  let s1 := if rd then cb_read x s else s in
+  exists sg1 h1, GT E U (Some x) s1 sg1 h1 /\ frame s s1 /\ ext s s1 /\
+    (rd = false -> s1 = s) /\
+    (cflag (cx s1 x) = true -> cq (cx s1 x) = 0) /\
+    ceof (cx s1 x) = ceof (cx s x) /\
+    (rd = true -> cflag (cx s1 x) = ceof (cx s x)) /\
+    (rd = true -> cflag (cx s1 x) = false -> events_c (cx (rd_mid x s) x) = 0).
+Proof.
+  intros rd E U s x (sg & h & G) Hin. destruct rd; cbv zeta.
+  - destruct (gt_cb_read E U s sg h x G Hin) as (sg1 & h1 & A1 & A2 & A3 & A4 & A5 & A6 & A7).
+    exists sg1, h1. split; auto. split; auto. split; auto. split; [intros; discriminate|].
+    split; auto.
+  - exists sg, h. split.
+    + destruct G. apply mkGT; auto. apply Fl_Flx; auto.
+    + split; [apply frame_refl|]. split; [apply ext_refl|]. split; auto.
+      split; [|split; [auto|split; intros; discriminate]].
+      intros C. rewrite (Fl_clist s x (gt_inv _ _ _ _ _ _ G) (gt_fl _ _ _ _ _ _ G) Hin) in C. discriminate.
+Qed.
+
+Lemma visit_flag : forall (fl : bool) E U s sg h x, GT E U (Some x) s sg h ->
   (fl = true -> ceof (cx s x) = true) ->
   let s2 := if fl then set_flag x s else s in
-  Inv s2 /\ GC s2 sg /\ Flx x s2 /\ frame s s2 /\ (forall z, z <> x -> cx s2 z = cx s z) /\
-  (cflag (cx s2 x) = false -> cx s2 x = cx s x) /\ tr s2 = tr s /\ cq (cx s2 x) = cq (cx s x).
+  GT E U (Some x) s2 sg h /\ frame s s2 /\ erdl s2 = erdl s /\ tr s2 = tr s /\
+  (forall z, z <> x -> cx s2 z = cx s z) /\
+  (cflag (cx s2 x) = false -> s2 = s) /\ cq (cx s2 x) = cq (cx s x) /\
+  (fl = true -> cflag (cx s2 x) = true) /\ (fl = false -> s2 = s).
 Proof.
-  intros fl x s sg I G F H. destruct fl; cbv zeta.
-  - destruct (gc_set_flag x s sg G F (H eq_refl)) as [A B].
+  intros fl E U s sg h x G H. destruct fl; cbv zeta.
+  - destruct G as [I GCs F PH CAP FIN GH TR NDU NDH HU W J CO BE].
+    destruct (gc_set_flag x s sg GCs F (H eq_refl)) as [A B].
     destruct (Inv_set_flag x s I) as [I2 _].
-    split; auto. split; auto. split; auto. unfold set_flag.
-    split; [constructor; simpl; auto|].
-    split; [intros z Hz; simpl; apply Nat.eqb_neq in Hz; rewrite Hz; auto|].
-    simpl. rewrite Nat.eqb_refl. simpl. split; [intros; discriminate|auto].
-  - split; auto. split; auto. split; auto. split; [apply frame_refl|]. split; auto.
+    unfold set_flag in *.
+    split; [apply mkGT; auto|].
+    + intros t Ht. simpl in *. destruct (Nat.eqb (tctx t) x) eqn:E0; [|apply CO; auto].
+      apply Nat.eqb_eq in E0. simpl. rewrite <- E0. apply CO. auto.
+    + split; [constructor; simpl; auto|]. split; [auto|]. split; [auto|].
+      split; [intros z Hz; simpl; apply Nat.eqb_neq in Hz; rewrite Hz; auto|].
+      simpl. rewrite Nat.eqb_refl. simpl. split; [intros; discriminate|]. split; auto. split; auto. intros; discriminate.
+  - split; auto. split; [apply frame_refl|]. split; auto. split; auto. split; auto. split; auto. split; auto.
+    split; [intros; discriminate|auto].
 Qed.
 
-Lemma visit_close : forall x s sg s', Inv s -> GC s sg -> Flx x s -> cflag (cx s x) = true -> In x (clist s) ->
-  cq (cx s x) = 0 ->
-  cx s' = cx (cb_close x s) -> clist s' = rm x (clist s) -> trigs s' = trigs s ->
-  GC s' sg /\ Fl s' /\
+Lemma visit_close : forall E U s sg h x s', GT E U (Some x) s sg h -> cflag (cx s x) = true ->
+  In x (clist s) -> cq (cx s x) = 0 -> Inv s' ->
+  cx s' = cx (cb_close x s) -> clist s' = rm x (clist s) -> trigs s' = trigs s -> phases s' = phases s ->
+  bk s' = bk s -> pcap s' = pcap s -> length (parr s') <= length (parr s) ->
+  GT E U None s' sg h /\
   ((forall z, In z (clist s) -> z <> x -> events_c (cx s z) = 0) -> Quiet s').
 Proof.
-  intros x s sg s' I G F CF Hin CQ E1 E2 E3.
-  destruct (gc_close x s sg s' G F CF Hin CQ E1 E2 E3) as [A B]. split; auto. split; auto.
-  intros Q z Hz. rewrite E2 in Hz. apply rm_In in Hz. destruct Hz as [Hz Hne].
-  rewrite E1. simpl. apply Nat.eqb_neq in Hne. rewrite Hne. apply Q; auto. apply Nat.eqb_neq; auto.
+  intros E U s sg h x s' G CF Hin CQ I' E1 E2 E3 E4 E5 E6 E7.
+  destruct G as [I GCs F PH CAP FIN GH TR NDU NDH HU W J CO BE].
+  destruct (gc_close x s sg s' GCs F CF Hin CQ E1 E2 E3) as [A B].
+  split.
+  - apply mkGT; auto; rewrite ?E3, ?E4; auto.
+    + rewrite E5, E6. intros Bp. specialize (CAP Bp). lia.
+    + intros t Ht. rewrite E1. simpl. destruct (Nat.eqb (tctx t) x) eqn:E0; [|apply CO; auto].
+      apply Nat.eqb_eq in E0. simpl. rewrite <- E0. apply CO. auto.
+  - intros Q z Hz. rewrite E2 in Hz. apply rm_In in Hz. destruct Hz as [Hz Hne].
+    rewrite E1. simpl. apply Nat.eqb_neq in Hne. rewrite Hne. apply Q; auto. apply Nat.eqb_neq; auto.
+Qed.
+
+Lemma GT_unflag : forall E U s sg h x, GT E U (Some x) s sg h -> cflag (cx s x) = false -> GT E U None s sg h.
+Proof.
+  intros E U s sg h x [I GCs F PH CAP FIN GH TR NDU NDH HU W J CO BE] CF.
+  apply mkGT; auto. simpl in F. eapply Flx_Fl; eauto.
 Qed.
 
 (* ------------------------------------------------------------------ select *)
-Lemma sel_walk_GI : forall f i rep s sg, Inv s -> GC s sg -> Fl s -> bk s = BSelect ->
-  Inv (sel_walk f i rep s) /\ GC (sel_walk f i rep s) sg /\ Fl (sel_walk f i rep s) /\
+Definition no_ctx_report (rep : list (nat * nat)) : Prop := forall x, x <> 0 -> lookup x rep = 0.
+
+Lemma sel_walk_GX : forall f i rep E U s, GX E U s -> bk s = BSelect ->
+  GX E U (sel_walk f i rep s) /\
   phases (sel_walk f i rep s) = phases s /\ toexit (sel_walk f i rep s) = toexit s /\
   idle (sel_walk f i rep s) = idle s /\ bk (sel_walk f i rep s) = bk s /\
   (In 0 (sset s) -> In 0 (sset (sel_walk f i rep s))) /\
-  (Quiet s -> Quiet (sel_walk f i rep s)).
+  (no_ctx_report rep -> Quiet s -> Quiet (sel_walk f i rep s)).
 Proof.
-  induction f as [|f IH]; intros i rep s sg I G F B; simpl.
-  - split; [auto|]. split; [auto|]. split; [auto|]. repeat split; auto.
-  - destruct (nth_error (clist s) i) as [x|] eqn:N; [|split; [auto|]; split; [auto|]; split; [auto|]; repeat split; auto].
+  induction f as [|f IH]; intros i rep E U s GXs B; simpl.
+  - split; [auto|]. repeat split; auto.
+  - destruct (nth_error (clist s) i) as [x|] eqn:N; [|split; [auto|]; repeat split; auto].
     pose proof (nth_error_In _ _ N) as Hin.
-    destruct (visit_read (negb (Nat.eqb (lookup x rep) 0)) x s sg I G F Hin) as (I1 & G1 & F1 & FR & O1 & Q1 & _ & _ & _ & _ & _ & CQ1 & _ & _).
+    pose proof (GX_inv _ _ _ GXs) as I.
+    destruct (visit_read (negb (Nat.eqb (lookup x rep) 0)) E U s x GXs Hin) as (sg1 & h1 & G1 & FR & E1 & NR & CQ1 & _ & _ & _).
     set (s1 := if negb (Nat.eqb (lookup x rep) 0) then cb_read x s else s) in *.
     destruct FR.
     assert (Hin1 : In x (clist s1)) by (rewrite fr_clist0; auto).
     assert (X0 : x <> 0) by (apply (i_reg s I x Hin)).
+    pose proof (gt_inv _ _ _ _ _ _ G1) as I1.
     destruct (cflag (cx s1 x)) eqn:CF.
     + set (s2 := cb_close x (set_sset (rm x (sset s1)) s1)).
       set (s3 := set_clist (rm x (clist s2)) s2).
       assert (I3 : Inv s3).
       { unfold s3, s2. eapply (Inv_close_gen x (set_sset (rm x (sset s1)) s1)); simpl; auto.
         - eapply Inv_view; [apply sv_set_sset|auto].
-        - intros z. destruct (Nat.eqb z x) eqn:E; auto. apply Nat.eqb_eq in E; subst; auto.
+        - intros z. destruct (Nat.eqb z x) eqn:E0; auto. apply Nat.eqb_eq in E0; subst; auto.
         - intros z. destruct (Nat.eqb z x); auto.
         - rewrite fr_bk0, B. discriminate.
         - rewrite fr_bk0, B. discriminate. }
-      destruct (visit_close x s1 sg s3 I1 G1 F1 CF Hin1 (CQ1 eq_refl)) as (G3 & F3 & Q3); auto.
-      destruct (IH i rep s3 sg I3 G3 F3) as (A1 & A2 & A3 & A4 & A5 & A6 & A7 & A8 & A9).
+      destruct (visit_close E U s1 sg1 h1 x s3 G1 CF Hin1 (CQ1 eq_refl) I3) as (G3 & Q3); auto.
+      destruct (IH i rep E U s3) as (A1 & A4 & A5 & A6 & A7 & A8 & A9).
+      { exists sg1, h1. auto. }
       { unfold s3, s2. simpl. congruence. }
       change (set_clist (rm x (clist s1)) s2) with s3.
-      split; auto. split; auto. split; auto.
+      split; auto.
       split; [rewrite A4; unfold s3, s2; simpl; auto|].
       split; [rewrite A5; unfold s3, s2; simpl; auto|].
       split; [rewrite A6; unfold s3, s2; simpl; auto|].
       split; [rewrite A7; unfold s3, s2; simpl; auto|].
       split.
       * intros H0. apply A8. unfold s3, s2. simpl. apply rm_In. split; [rewrite fr_sset0; auto|auto].
-      * intros Q. apply A9. apply Q3. intros z Hz Hne. rewrite O1 by auto. apply Q. rewrite <- fr_clist0. auto.
+      * intros NC Q. apply A9; auto. apply Q3. intros z Hz Hne.
+        assert (s1 = s) as ES by (apply NR; rewrite (NC x X0); auto). rewrite ES in *. apply Q. auto.
     + set (s2 := set_sset (add_set x (sset s1)) s1).
       assert (I2 : Inv s2) by (eapply Inv_view; [apply sv_set_sset|auto]).
-      assert (G2 : GC s2 sg) by (eapply GC_view2; [| | | | |apply G1]; auto).
-      assert (F2 : Fl s2) by (eapply Fl_view; [|eapply Flx_Fl; eauto]; auto).
-      destruct (IH (S i) rep s2 sg I2 G2 F2) as (A1 & A2 & A3 & A4 & A5 & A6 & A7 & A8 & A9).
+      assert (G2 : GT E U None s2 sg1 h1).
+      { eapply GT_view; [apply (GT_unflag _ _ _ _ _ _ G1 CF)|apply I2| | | | | | |]; auto. }
+      destruct (IH (S i) rep E U s2) as (A1 & A4 & A5 & A6 & A7 & A8 & A9).
+      { exists sg1, h1. auto. }
       { unfold s2. simpl. congruence. }
-      fold s2. split; auto. split; auto. split; auto.
+      fold s2. split; auto.
       split; [rewrite A4; unfold s2; simpl; auto|].
       split; [rewrite A5; unfold s2; simpl; auto|].
       split; [rewrite A6; unfold s2; simpl; auto|].
       split; [rewrite A7; unfold s2; simpl; auto|].
       split.
       * intros H0. apply A8. unfold s2. simpl. apply add_set_incl. rewrite fr_sset0. auto.
-      * intros Q. apply A9. intros z Hz. unfold s2 in *. simpl in *. rewrite fr_clist0 in Hz.
-        destruct (Nat.eq_dec z x) as [->|Hne]; [apply Q1; auto|rewrite O1; auto].
+      * intros NC Q. apply A9; auto.
+        assert (s1 = s) as ES by (apply NR; rewrite (NC x X0); auto).
+        eapply Quiet_view; [| |apply Q]; unfold s2; simpl; rewrite ES; auto.
 Qed.
 
 Lemma add_set_self : forall x l, In x (add_set x l).
@@ -545,8 +854,20 @@ Qed.
 Definition cov (i : nat) (s : st) : Prop :=
   forall k x, k < i -> nth_error (clist s) k = Some x -> In x (sset s).
 
+Lemma cb_read_w_frame : forall x s, all_writes (trigs s) ->
+  frame s (cb_read x s) /\ all_writes (trigs (cb_read x s)).
+Proof.
+  intros x s W. rewrite cb_read_split.
+  assert (WF : all_writes (rd_fire x s)).
+  { intros t Ht. unfold rd_fire in Ht. apply filter_In in Ht. apply W. tauto. }
+  split.
+  - eapply frame_trans; [|apply frame_do_writes; auto]. unfold rd_mid. constructor; simpl; auto.
+  - destruct (do_acts_facts (map tact (rd_fire x s)) (rd_mid x s)) as (D1 & _). rewrite D1.
+    unfold rd_mid. simpl. intros t Ht. apply filter_In in Ht. apply W. tauto.
+Qed.
+
 (* after a complete walk every context still in ctx_list is in the rebuilt allset *)
-Lemma sel_walk_cov : forall f i rep s, Inv s -> bk s = BSelect -> trigs s = [] -> cov i s ->
+Lemma sel_walk_cov : forall f i rep s, Inv s -> bk s = BSelect -> all_writes (trigs s) -> cov i s ->
   length (clist s) - i < f ->
   forall x, In x (clist (sel_walk f i rep s)) -> In x (sset (sel_walk f i rep s)).
 Proof.
@@ -555,10 +876,10 @@ Proof.
   - pose proof (nth_error_In _ _ N) as Hy.
     assert (Hi : i < length (clist s)) by (apply nth_error_Some; congruence).
     set (s1 := if negb (Nat.eqb (lookup y rep) 0) then cb_read y s else s).
-    assert (H1 : Inv s1 /\ clist s1 = clist s /\ sset s1 = sset s /\ trigs s1 = [] /\ bk s1 = BSelect).
+    assert (H1 : Inv s1 /\ clist s1 = clist s /\ sset s1 = sset s /\ all_writes (trigs s1) /\ bk s1 = BSelect).
     { unfold s1. destruct (negb _); [|auto].
       destruct (Inv_cb_read y s I Hy) as (A & _). split; auto.
-      rewrite (cb_read_flat y s T). simpl. auto. }
+      destruct (cb_read_w_frame y s T) as [FR W']. destruct FR. repeat split; auto; congruence. }
     destruct H1 as (I1 & L1 & S1 & T1 & B1).
     destruct (cflag (cx s1 y)).
     + set (s2 := cb_close y (set_sset (rm y (sset s1)) s1)).
@@ -597,80 +918,66 @@ Proof.
     assert (k < length (clist s)) by (apply nth_error_Some; congruence). lia.
 Qed.
 
-Lemma wk_edge : forall x s, wk (edge x s) = wk s.
-Proof. intros. unfold edge. destruct (_ && _); auto. Qed.
-Lemma idle_edge : forall x s, idle (edge x s) = idle s.
-Proof. intros. unfold edge. destruct (_ && _); auto. Qed.
-Lemma toexit_edge : forall x s, toexit (edge x s) = toexit s.
-Proof. intros. unfold edge. destruct (_ && _); auto. Qed.
-Lemma pcap_edge : forall x s, pcap (edge x s) = pcap s.
-Proof. intros. unfold edge. destruct (_ && _); auto. Qed.
 
-Lemma GI_inject : forall s sg, GI s sg -> GI (inject s) sg.
+Lemma GX_inject : forall E U s, GX E U s -> GX E U (inject s).
 Proof.
-  intros s sg [I G F PH CAP FIN]. unfold inject. constructor.
-  - eapply Inv_view; [apply sv_inject|auto].
-  - eapply GC_view2; [| | | | |apply G]; simpl; rewrite ?cx_edge, ?clist_edge, ?trigs_edge; auto.
-  - eapply Fl_view; [|apply F]. simpl. rewrite cx_edge. auto.
-  - simpl. rewrite phases_edge. auto.
-  - simpl. rewrite bk_edge, parr_edge, phases_edge, pcap_edge. auto.
-  - simpl. rewrite phases_edge. auto.
+  intros E U s G. eapply GX_view; [apply G| | | | | | | |]; unfold inject; simpl;
+    rewrite ?cx_edge, ?clist_edge, ?trigs_edge, ?phases_edge, ?bk_edge, ?pcap_edge, ?parr_edge; auto.
+  eapply Inv_view; [apply sv_inject|apply (GX_inv _ _ _ G)].
 Qed.
 
-Lemma Quiet_view : forall s s', cx s' = cx s -> clist s' = clist s -> Quiet s -> Quiet s'.
-Proof. intros s s' A B Q x Hx. rewrite A. apply Q. rewrite <- B. auto. Qed.
+Lemma GX_writes : forall E U s, GX E U s -> all_writes (trigs s).
+Proof.
+  intros E U s (sg & h & G) t Ht. rewrite (gt_trigs _ _ _ _ _ _ G) in Ht. apply filter_In in Ht.
+  apply (gt_w _ _ _ _ _ _ G). tauto.
+Qed.
 
 Definition BSel (s : st) : Prop :=
   In 0 (sset s) /\ (forall x, In x (clist s) -> In x (sset s)) /\ no_stale s.
 
-Lemma sel_dispatch_core : forall rep n s sg, GI s sg -> toexit s = false -> bk s = BSelect ->
-  Nat.ltb 0 n = true ->
-  exists sg', GI (dispatch_select rep n s) sg' /\ BSel (dispatch_select rep n s) /\
+Lemma sel_dispatch_core : forall rep n E U s, GX E U s -> toexit s = false -> bk s = BSelect ->
+  Nat.ltb 0 n = true -> (idle s = true -> Quiet s) ->
+  exists E' U', GX E' U' (dispatch_select rep n s) /\ BSel (dispatch_select rep n s) /\
     bk (dispatch_select rep n s) = BSelect /\
     (Nat.eqb (lookup 0 rep) 0 = false -> idle (dispatch_select rep n s) = false) /\
     (idle s = false -> idle (dispatch_select rep n s) = false /\ toexit (dispatch_select rep n s) = false) /\
     (toexit (dispatch_select rep n s) = true ->
-       phases (dispatch_select rep n s) = [] /\ (Quiet s -> Quiet (dispatch_select rep n s))).
+       phases (dispatch_select rep n s) = [] /\ (no_ctx_report rep -> Quiet s -> Quiet (dispatch_select rep n s))).
 Proof.
-  intros rep n s sg GIs EX B Hn.
+  intros rep n E U s GXs EX B Hn QI.
   pose proof (iso_select_rebuild rep n s Hn) as NS.
   unfold dispatch_select in *. rewrite Hn in *.
   set (s1 := set_sset [] s) in *.
-  assert (GI1 : GI s1 sg).
-  { destruct GIs as [I G F PH CAP FIN]. constructor; simpl; auto.
-    - eapply Inv_view; [apply sv_set_sset|auto].
-    - eapply GC_view2; [| | | | |apply G]; auto. }
-  assert (exists sg' s2, s2 = (if negb (Nat.eqb (lookup 0 rep) 0) then handle_wakeup s1 else s1) /\
-            GI s2 sg' /\ bk s2 = BSelect /\
+  assert (GX1 : GX E U s1).
+  { eapply GX_view; [apply GXs| | | | | | | |]; simpl; auto.
+    eapply Inv_view; [apply sv_set_sset|apply (GX_inv _ _ _ GXs)]. }
+  assert (exists E' U' s2, s2 = (if negb (Nat.eqb (lookup 0 rep) 0) then handle_wakeup s1 else s1) /\
+            GX E' U' s2 /\ bk s2 = BSelect /\
             (Nat.eqb (lookup 0 rep) 0 = false -> idle s2 = false) /\
             (idle s = false -> idle s2 = false /\ toexit s2 = false) /\
-            (toexit s2 = true -> phases s2 = [] /\ (Quiet s -> Quiet s2))) as (sg' & s2 & E2 & GI2 & B2 & ID2 & NI2 & EX2).
+            (toexit s2 = true -> phases s2 = [] /\ (Quiet s -> Quiet s2))) as (E' & U' & s2 & E2 & GX2 & B2 & ID2 & NI2 & EX2).
   { destruct (Nat.eqb (lookup 0 rep) 0) eqn:L0; simpl.
-    - exists sg, s1. split; auto. split; auto. split; auto. split; [intros; discriminate|].
+    - exists E, U, s1. split; auto. split; auto. split; auto. split; [intros; discriminate|].
       split; [intros H; simpl; auto|]. simpl. intros C. congruence.
-    - destruct (hw_GI s1 sg GI1 EX) as (sg' & A1 & A2 & A3 & A4 & A5 & A6 & A7 & A8 & A9 & A10 & A11 & A12 & A13).
-      exists sg', (handle_wakeup s1). split; auto.
-      split; [constructor; auto; rewrite A8, A9; auto|].
+    - destruct (hw_GT E U s1 GX1 EX) as (E' & U' & A1 & A7 & A8 & A9 & A10 & A11 & A12 & A13).
+      { intros H. eapply Quiet_view; [| |apply (QI H)]; auto. }
+      exists E', U', (handle_wakeup s1). split; auto. split; auto.
       split; [rewrite A8; auto|]. split; [auto|].
       split.
       + intros H. split; auto. apply (A12 H).
-      + intros C. destruct (A13 C) as (_ & P & X1 & X2). split; auto.
+      + intros C. destruct (A13 C) as (_ & _ & P & X1 & X2). split; auto.
         intros Q. eapply Quiet_view; [apply X1|apply X2|]. eapply Quiet_view; [| |apply Q]; auto. }
   rewrite <- E2 in *.
   set (s3 := set_sset (add_set 0 (sset s2)) s2) in *.
-  destruct GI2 as [I2 G2 F2 PH2 CAP2 FIN2].
-  assert (I3 : Inv s3) by (eapply Inv_view; [apply sv_set_sset|auto]).
-  assert (G3 : GC s3 sg') by (eapply GC_view2; [| | | | |apply G2]; auto).
-  assert (F3 : Fl s3) by (eapply Fl_view; [|apply F2]; auto).
-  destruct (sel_walk_GI (walk_fuel s3) 0 rep s3 sg' I3 G3 F3 B2) as (W1 & W2 & W3 & W4 & W5 & W6 & W7 & W8 & W9).
-  exists sg'. split; [|split; [|split; [|split; [|split]]]].
-  - constructor; auto.
-    + rewrite W4. auto.
-    + rewrite W7. simpl. rewrite B2. discriminate.
-    + rewrite W4. auto.
+  assert (GX3 : GX E' U' s3).
+  { eapply GX_view; [apply GX2| | | | | | | |]; simpl; auto.
+    eapply Inv_view; [apply sv_set_sset|apply (GX_inv _ _ _ GX2)]. }
+  destruct (sel_walk_GX (walk_fuel s3) 0 rep E' U' s3 GX3 B2) as (W1 & W4 & W5 & W6 & W7 & W8 & W9).
+  exists E', U'. split; [auto|]. split; [|split; [|split; [|split]]].
   - split; [apply W8; simpl; apply add_set_self|]. split; [|auto].
     apply sel_walk_cov; auto.
-    + apply G3.
+    + apply (GX_inv _ _ _ GX3).
+    + apply (GX_writes _ _ _ GX3).
     + intros k x Hk. lia.
     + rewrite walk_fuel_meas. unfold meas. lia.
   - rewrite W7. auto.
@@ -686,69 +993,81 @@ Proof.
   destruct H as [->|H]; [rewrite Nat.eqb_refl in E; discriminate|auto].
 Qed.
 
-Lemma Q_sel : forall s sg, GI s sg -> BSel s -> bk s = BSelect -> kern s = [] -> Quiet s.
+Lemma lookup_map1_notin : forall x l, ~ In x l -> lookup x (map (fun y => (y, 1)) l) = 0.
 Proof.
-  intros s sg GIs (H0 & HC & _) B K x Hx. unfold kern in K. rewrite B in K.
-  apply map_eq_nil in K.
-  assert (In x (sset s)) as Hs by auto.
-  destruct (nz (events s x)) eqn:E.
-  - assert (In x (filter (fun x => nz (events s x)) (sset s))) as C by (apply filter_In; auto).
-    rewrite K in C. destruct C.
-  - unfold nz in E. apply Bool.negb_false_iff, Nat.eqb_eq in E.
-    unfold events in E. assert (x <> 0) as X0 by (apply (i_reg s (gi_inv _ _ GIs) x Hx)).
-    apply Nat.eqb_neq in X0. rewrite X0 in E. auto.
+  intros x l. unfold lookup. induction l as [|a l IH]; intros H; simpl; auto.
+  destruct (Nat.eqb a x) eqn:E; [apply Nat.eqb_eq in E; subst; exfalso; apply H; left; auto|].
+  apply IH. intro; apply H; right; auto.
 Qed.
 
-Lemma sel_iter : forall s sg, GI s sg -> toexit s = false -> idle s = false -> bk s = BSelect -> BSel s ->
-  exists sg', GI (iter (kern_o s) s) sg' /\ BSel (iter (kern_o s) s) /\
-    idle (iter (kern_o s) s) = false /\ bk (iter (kern_o s) s) = BSelect /\
-    (toexit (iter (kern_o s) s) = true -> phases (iter (kern_o s) s) = [] /\ Quiet (iter (kern_o s) s)).
+Lemma Q_sel : forall E U s, GX E U s -> BSel s -> bk s = BSelect -> kern s = [] -> Quiet s.
 Proof.
-  intros s sg GIs EX ID B BS. unfold iter, kern_o.
-  destruct (kern s) as [|p r] eqn:K.
-  - (* idle: the harness wakes the loop up *)
-    pose proof (Q_sel s sg GIs BS B K) as Q.
-    simpl. unfold dispatch.
-    assert (Bi : bk (inject s) = BSelect) by (unfold inject; simpl; rewrite bk_edge; auto).
-    rewrite Bi.
-    assert (K0 : In 0 (filter (fun x => nz (events (inject s) x)) (sset (inject s)))).
-    { apply filter_In. split.
-      - unfold inject. simpl. rewrite sset_edge. simpl. apply (proj1 BS).
-      - unfold events, inject. simpl. rewrite wk_edge. simpl. auto. }
-    assert (KI : kern (inject s) = map (fun x => (x, 1)) (filter (fun x => nz (events (inject s) x)) (sset (inject s)))).
-    { unfold kern. rewrite Bi. auto. }
-    destruct (sel_dispatch_core (kern (inject s)) (length (kern (inject s))) (inject s) sg (GI_inject s sg GIs)) as (sg' & A1 & A2 & A3 & A4 & A5 & A6).
-    + unfold inject. simpl. rewrite toexit_edge. auto.
-    + auto.
-    + apply Nat.ltb_lt. rewrite KI, map_length. destruct (filter _ _); [destruct K0|simpl; lia].
-    + exists sg'. split; auto. split; auto. split.
-      * apply A4. rewrite KI, lookup_map1; auto.
-      * split; auto. intros C. destruct (A6 C) as [P Qs]. split; auto. apply Qs.
-        eapply Quiet_view; [| |apply Q]; unfold inject; simpl; rewrite ?cx_edge, ?clist_edge; auto.
-  - simpl. unfold dispatch. rewrite B.
-    destruct (sel_dispatch_core (p :: r) (S (length r)) s sg GIs EX B eq_refl) as (sg' & A1 & A2 & A3 & A4 & A5 & A6).
-    destruct (A5 ID) as [A51 A52].
-    exists sg'. split; auto. split; auto. split; auto. split; auto. intros C. congruence.
+  intros E U s GXs (H0 & HC & _) B K x Hx. unfold kern in K. rewrite B in K.
+  apply map_eq_nil in K.
+  assert (In x (sset s)) as Hs by auto.
+  destruct (nz (events s x)) eqn:Ev.
+  - assert (In x (filter (fun x => nz (events s x)) (sset s))) as C by (apply filter_In; auto).
+    rewrite K in C. destruct C.
+  - unfold nz in Ev. apply Bool.negb_false_iff, Nat.eqb_eq in Ev.
+    unfold events in Ev. assert (x <> 0) as X0 by (apply (i_reg s (GX_inv _ _ _ GXs) x Hx)).
+    apply Nat.eqb_neq in X0. rewrite X0 in Ev. auto.
 Qed.
 
 (* ------------------------------------------------------------------ the whole run, any back-end *)
 Definition iter_ok (BI : st -> Prop) (b : backend) : Prop :=
-  forall s sg, GI s sg -> toexit s = false -> idle s = false -> bk s = b -> BI s ->
-  exists sg', GI (iter (kern_o s) s) sg' /\ BI (iter (kern_o s) s) /\
+  forall E U s, GX E U s -> toexit s = false -> idle s = false -> bk s = b -> BI s ->
+  exists E' U', GX E' U' (iter (kern_o s) s) /\ BI (iter (kern_o s) s) /\
     idle (iter (kern_o s) s) = false /\ bk (iter (kern_o s) s) = b /\
     (toexit (iter (kern_o s) s) = true -> phases (iter (kern_o s) s) = [] /\ Quiet (iter (kern_o s) s)).
 
-Lemma runk_flat : forall BI b, iter_ok BI b ->
-  forall fuel s sg s', GI s sg -> toexit s = false -> idle s = false -> bk s = b -> BI s ->
-  runk fuel s = (s', true) ->
-  exists s1, s' = finish s1 /\ GI s1 sgfin /\ Quiet s1.
+Lemma sel_iter : iter_ok BSel BSelect.
 Proof.
-  intros BI b OK. induction fuel as [|f IH]; intros s sg s' GIs EX ID B BIs R; simpl in R; [discriminate|].
-  destruct (OK s sg GIs EX ID B BIs) as (sg' & A1 & A2 & A3 & A4 & A5).
+  intros E U s GXs EX ID B BS. unfold iter, kern_o.
+  destruct (kern s) as [|p r] eqn:K.
+  - (* idle: the harness wakes the loop up *)
+    pose proof (Q_sel E U s GXs BS B K) as Q.
+    simpl. unfold dispatch.
+    assert (Bi : bk (inject s) = BSelect) by (unfold inject; simpl; rewrite bk_edge; auto).
+    rewrite Bi.
+    assert (SS : sset (inject s) = sset s) by (unfold inject; simpl; rewrite sset_edge; auto).
+    assert (CXi : cx (inject s) = cx s) by (unfold inject; simpl; rewrite cx_edge; auto).
+    assert (CLi : clist (inject s) = clist s) by (unfold inject; simpl; rewrite clist_edge; auto).
+    assert (Qi : Quiet (inject s)) by (eapply Quiet_view; [apply CXi|apply CLi|auto]).
+    assert (K0 : In 0 (filter (fun x => nz (events (inject s) x)) (sset (inject s)))).
+    { apply filter_In. split.
+      - rewrite SS. apply (proj1 BS).
+      - unfold events, inject. simpl. rewrite wk_edge. simpl. auto. }
+    assert (KI : kern (inject s) = map (fun x => (x, 1)) (filter (fun x => nz (events (inject s) x)) (sset (inject s)))).
+    { unfold kern. rewrite Bi. auto. }
+    assert (NCR : no_ctx_report (kern (inject s))).
+    { intros x X0. rewrite KI. apply lookup_map1_notin. intro C. apply filter_In in C. destruct C as [C1 C2].
+      rewrite SS in C1. destruct BS as (_ & _ & NS). destruct (NS x C1) as [->|Hc]; [congruence|].
+      unfold nz, events in C2. apply Nat.eqb_neq in X0. rewrite X0, CXi in C2. rewrite (Q x Hc) in C2. discriminate. }
+    destruct (sel_dispatch_core (kern (inject s)) (length (kern (inject s))) E U (inject s) (GX_inject E U s GXs)) as (E' & U' & A1 & A2 & A3 & A4 & A5 & A6).
+    + unfold inject. simpl. rewrite toexit_edge. auto.
+    + auto.
+    + apply Nat.ltb_lt. rewrite KI, map_length. destruct (filter _ _); [destruct K0|simpl; lia].
+    + auto.
+    + exists E', U'. split; auto. split; auto. split.
+      * apply A4. rewrite KI, lookup_map1; auto.
+      * split; auto. intros C. destruct (A6 C) as [P Qs]. split; auto.
+  - simpl. unfold dispatch. rewrite B.
+    destruct (sel_dispatch_core (p :: r) (S (length r)) E U s GXs EX B eq_refl) as (E' & U' & A1 & A2 & A3 & A4 & A5 & A6).
+    { intros C. congruence. }
+    destruct (A5 ID) as [A51 A52].
+    exists E', U'. split; auto. split; auto. split; auto. split; auto. intros C. congruence.
+Qed.
+
+Lemma runk_flat : forall BI b, iter_ok BI b ->
+  forall fuel E U s s', GX E U s -> toexit s = false -> idle s = false -> bk s = b -> BI s ->
+  runk fuel s = (s', true) ->
+  exists s1 E1 U1, s' = finish s1 /\ GX E1 U1 s1 /\ phases s1 = [] /\ Quiet s1.
+Proof.
+  intros BI b OK. induction fuel as [|f IH]; intros E U s s' GXs EX ID B BIs R; simpl in R; [discriminate|].
+  destruct (OK E U s GXs EX ID B BIs) as (E' & U' & A1 & A2 & A3 & A4 & A5).
   destruct (toexit (iter (kern_o s) s)) eqn:T.
   - inversion R; subst s'. destruct (A5 eq_refl) as [P Q].
-    exists (iter (kern_o s) s). split; auto. split; auto.
-    pose proof (gi_fin _ _ A1) as FIN. rewrite P in FIN. simpl in FIN. subst sg'. auto.
+    exists (iter (kern_o s) s), E', U'. auto.
   - eapply IH; eauto.
 Qed.
 
@@ -776,26 +1095,33 @@ Proof.
 Qed.
 
 (* at exit every context has the outcome the specification computes *)
-Lemma final_outcome : forall s x, GI s sgfin -> Quiet s ->
+Lemma final_outcome : forall E U s x, GX E U s -> phases s = [] -> Quiet s ->
   outcome (finish s) x =
   (let d := cx sgfin x in if cregok d then (cq d, ceof d, negb (ceof d)) else (0, false, false)).
 Proof.
-  intros s x [I G F _ _ _] Q. unfold outcome. rewrite finish_cx.
+  intros E U s x (sg & h & GTs) PHN Q.
+  destruct (quiet_cxeq E U s sg h GTs Q) as [_ CXE].
+  assert (G : GC s sgfin).
+  { pose proof (gt_fin _ _ _ _ _ _ GTs) as FIN. rewrite PHN in FIN. simpl in FIN.
+    eapply GC_cxeq; [apply (gt_gc _ _ _ _ _ _ GTs)|intros y; rewrite <- FIN; apply CXE|].
+    rewrite <- FIN.
+    destruct (ghost_settle E U 0) as [_ B]; [intros t Ht; apply (gt_w _ _ _ _ _ _ GTs); auto|].
+    rewrite B. apply (gt_bkE _ _ _ _ _ _ GTs). }
+  pose proof (gt_inv _ _ _ _ _ _ GTs) as I.
+  unfold outcome. rewrite finish_cx.
   pose proof (g_pc _ _ G x) as P. pose proof (g_reg _ _ G x) as R. destruct P.
   cbv zeta. rewrite <- p_reg0.
   destruct (cregok (cx s x)) eqn:RG.
   - destruct (proj1 R eq_refl) as [Hin|Hc].
-    + (* still registered: everything delivered, peer alive, cleared *)
-      destruct (events_zero _ _ (g_pc _ _ G x) (Q x Hin)) as [Q0 E0].
+    + destruct (events_zero _ _ (g_pc _ _ G x) (Q x Hin)) as [Q0 E0].
       destruct (i_reg s I x Hin) as (_ & _ & NC).
       assert (existsb (is_clear_of x) (tr (finish s)) = true) as -> by (apply clear_iff; auto).
       rewrite NC, <- p_eof0, E0. simpl. f_equal. f_equal. lia.
-    + (* closed: everything delivered before the close *)
-      assert (~ In x (clist s)) as NI.
+    + assert (~ In x (clist s)) as NI.
       { intro H. destruct (i_reg s I x H) as (_ & _ & NC). congruence. }
       assert (existsb (is_clear_of x) (tr (finish s)) = false) as ->.
-      { destruct (existsb (is_clear_of x) (tr (finish s))) eqn:E; auto.
-        apply clear_iff in E; auto. contradiction. }
+      { destruct (existsb (is_clear_of x) (tr (finish s))) eqn:Ex; auto.
+        apply clear_iff in Ex; auto. contradiction. }
       rewrite Hc, <- p_eof0, (p_cl_eof0 Hc). simpl. f_equal. f_equal.
       pose proof (p_cl_q0 Hc). lia.
   - assert (cclosed (cx s x) = false) as NC.
@@ -803,8 +1129,8 @@ Proof.
     assert (~ In x (clist s)) as NI.
     { intro H. assert (false = true); [|discriminate]. apply R. auto. }
     assert (existsb (is_clear_of x) (tr (finish s)) = false) as ->.
-    { destruct (existsb (is_clear_of x) (tr (finish s))) eqn:E; auto.
-      apply clear_iff in E; auto. contradiction. }
+    { destruct (existsb (is_clear_of x) (tr (finish s))) eqn:Ex; auto.
+      apply clear_iff in Ex; auto. contradiction. }
     rewrite NC, (p_off0 eq_refl). auto.
 Qed.
 
@@ -835,6 +1161,61 @@ Qed.
 Lemma Htc_zero : forall c, Htc 0 c.
 Proof. intros c H. discriminate. Qed.
 
+(* once the peer's write side is shut nothing more arrives *)
+Lemma dead_do_act : forall a s y, ceof (cx s y) = true ->
+  ceof (cx (do_act a s) y) = true /\ cq (cx (do_act a s) y) = cq (cx s y).
+Proof.
+  intros a s y CE. destruct a; unfold do_act.
+  - destruct (can_write (cx s y0)) eqn:CW; [|simpl; auto].
+    assert (y <> y0) as N.
+    { intro; subst y0. unfold can_write in CW. rewrite CE in CW. simpl in CW.
+      rewrite Bool.andb_false_r in CW. discriminate. }
+    apply Nat.eqb_neq in N.
+    destruct (Nat.eqb k 0); simpl; rewrite ?cx_edge; simpl; rewrite N; auto.
+  - destruct (cpopen (cx s y0) && negb (ceof (cx s y0))); [|simpl; auto].
+    simpl. rewrite cx_edge. simpl. destruct (Nat.eqb y y0) eqn:E; auto.
+    apply Nat.eqb_eq in E. subst. simpl. auto.
+  - destruct (cpopen (cx s y0)); [|simpl; auto].
+    destruct (is_tcp (cx s y0) && ceof (cx s y0)); simpl; rewrite ?cx_edge; simpl;
+      (destruct (Nat.eqb y y0) eqn:E; auto; apply Nat.eqb_eq in E; subst; simpl; auto).
+  - destruct (cadded (cx s y0) || Nat.eqb y0 0); [simpl; auto|].
+    set (c1 := mkC _ _ _ _ _ _ true _ _ _).
+    destruct (add_ctx_other y0 (updc y0 c1 s)) as (_ & _ & _ & D & _).
+    destruct (add_ctx y0 (updc y0 c1 s)) as [s1 ok]. simpl in D. simpl. rewrite D. simpl.
+    destruct (Nat.eqb y y0) eqn:E; auto. apply Nat.eqb_eq in E. subst. rewrite Nat.eqb_refl. simpl. auto.
+  - destruct (cclosed (cx s y0)); [simpl; auto|].
+    destruct (negb (is_pipe (cx s y0))); simpl; rewrite ?cx_edge; simpl;
+      (destruct (Nat.eqb y y0) eqn:E; auto; apply Nat.eqb_eq in E; subst; simpl; auto).
+  - simpl. rewrite cx_edge. auto.
+  - simpl. auto.
+Qed.
+
+Lemma Htc_do_acts : forall l s y e, Htc e (cx s y) -> Htc e (cx (do_acts l s) y).
+Proof.
+  induction l as [|a l IH]; intros s y e H; simpl; auto.
+  apply IH. intros HH. destruct (H HH) as [CE CQ].
+  destruct (dead_do_act a s y CE) as [A B]. split; auto. intros HI. rewrite B. auto.
+Qed.
+
+Lemma Htc_handle_wakeup : forall s y e, Htc e (cx s y) -> Htc e (cx (handle_wakeup s) y).
+Proof.
+  intros s y e H. unfold handle_wakeup.
+  set (s1 := emit EWake (set_wk 0 s)).
+  assert (H1 : Htc e (cx s1 y)) by auto.
+  destruct (idle s1); auto.
+  destruct (phases (set_idle false s1)) as [|p r].
+  - apply (Htc_do_acts [AExit] (set_idle false s1)). auto.
+  - apply (Htc_do_acts p (set_phases r (set_idle false s1))). auto.
+Qed.
+
+
+(* the read callback of another context (its triggers may write here) keeps the kernel truth *)
+Lemma Htc_cb_read : forall x s z e, z <> x -> Htc e (cx s z) -> Htc e (cx (cb_read x s) z).
+Proof.
+  intros x s z e Hz H. rewrite cb_read_split. apply Htc_do_acts.
+  unfold rd_mid. simpl. apply Nat.eqb_neq in Hz. rewrite Hz. auto.
+Qed.
+
 Lemma lookup_kern_poll : forall s x, bk s = BPoll -> lookup x (kern s) = 0 \/ lookup x (kern s) = events s x.
 Proof.
   intros s x B. unfold kern. rewrite B. unfold lookup.
@@ -853,29 +1234,28 @@ Proof.
   intro C. apply (i_reg s I) in C. destruct C; congruence.
 Qed.
 
-(* one context slot, busy pass *)
-Lemma poll_slot_GI : forall i n s sg, GI s sg -> bk s = BPoll -> 1 <= i -> PHt (S i) s ->
-  GI (fst (poll_step i n s)) sg /\ bk (fst (poll_step i n s)) = BPoll /\
+(* one context slot *)
+Lemma poll_slot_GX : forall i n E U s, GX E U s -> bk s = BPoll -> 1 <= i -> PHt (S i) s ->
+  GX E U (fst (poll_step i n s)) /\ bk (fst (poll_step i n s)) = BPoll /\
   idle (fst (poll_step i n s)) = idle s /\ toexit (fst (poll_step i n s)) = toexit s /\
-  pcap (fst (poll_step i n s)) = pcap s /\ PHt i (fst (poll_step i n s)) /\
-  (Quiet s -> Quiet (fst (poll_step i n s))).
+  pcap (fst (poll_step i n s)) = pcap s /\ PHt i (fst (poll_step i n s)).
 Proof.
-  intros i n s sg GIs B Hi HT.
-  destruct (Inv_poll_step i n s (gi_inv _ _ GIs) B) as [IP BP].
-  destruct GIs as [I G F PH CAP FIN].
+  intros i n E U s GXs B Hi HT.
+  pose proof (GX_inv _ _ _ GXs) as I.
+  destruct (Inv_poll_step i n s I B) as [IP BP].
   unfold poll_step in *.
   assert (Nat.eqb i 0 = false) as E0 by (apply Nat.eqb_neq; lia). rewrite E0 in *.
   destruct (nth_error (parr s) i) as [[x re]|] eqn:N.
-  2:{ simpl. split; [constructor; auto|]. split; [auto|]. split; [auto|]. split; [auto|]. split; [auto|].
-      split; [|auto]. intros j y r H1 H2. apply HT; auto. }
+  2:{ simpl. split; [auto|]. split; [auto|]. split; [auto|]. split; [auto|]. split; [auto|].
+      intros j y r H1 H2. apply HT; auto. }
   destruct (Inv_poll_step_close s x re i I B Hi N) as [Hin _].
   pose proof (HT i x re Hi ltac:(lia) N) as HTx.
-  destruct (visit_read (has_in re) x s sg I G F Hin) as (I1 & G1 & F1 & FR1 & O1 & Q1 & _ & CE1 & _ & _ & E1 & CQ1 & NR1 & RQ1).
+  destruct (visit_read (has_in re) E U s x GXs Hin) as (sg1 & h1 & G1 & FR1 & E1 & NR1 & CQ1 & CE1 & RF1 & _).
   assert (exists s1 n1, (if has_in re then (cb_read x s, n - 1) else (s, n)) = (s1, n1) /\
             s1 = (if has_in re then cb_read x s else s)) as (s1 & n1 & EQ1 & ES1).
   { destruct (has_in re); eexists; eexists; split; reflexivity. }
   rewrite EQ1 in *. rewrite <- ES1 in *. clear EQ1.
-  destruct (visit_flag (has_hup_err re) x s1 sg I1 G1 F1) as (I2 & G2 & F2 & FR2 & O2 & NF2 & T2 & CQ2).
+  destruct (visit_flag (has_hup_err re) E U s1 sg1 h1 x G1) as (G2 & FR2 & RD2 & T2 & O2 & NF2 & CQ2 & FT2 & FF2).
   { intros H. rewrite CE1. apply (HTx H). }
   assert (exists s2 n2, (if has_hup_err re then (set_flag x s1, n1 - 1) else (s1, n1)) = (s2, n2) /\
             s2 = (if has_hup_err re then set_flag x s1 else s1)) as (s2 & n2 & EQ2 & ES2).
@@ -889,63 +1269,59 @@ Proof.
     assert (nth_error (map fst (parr s)) j = Some x) by (rewrite nth_error_map, Nj; auto).
     assert (i = j); [|lia].
     eapply (proj1 (NoDup_nth_error _) ND); [rewrite map_length; apply nth_error_Some; congruence|congruence]. }
-  assert (CXO : forall z, z <> x -> cx s2 z = cx s z) by (intros z Hz; rewrite O2, O1; auto).
+  assert (HTO : forall z e, z <> x -> Htc e (cx s z) -> Htc e (cx s2 z)).
+  { intros z e Hz H. rewrite O2 by auto. rewrite ES1. destruct (has_in re); [apply Htc_cb_read; auto|auto]. }
+  pose proof (gt_inv _ _ _ _ _ _ G2) as I2.
   destruct (cflag (cx s2 x)) eqn:CF; cbv zeta; simpl fst in *.
   - (* closed and removed by swap-with-last *)
     set (s3 := cb_close x s2) in *. set (s4 := set_clist (rm x (clist s3)) s3) in *.
     set (s5 := set_parr (poll_remove i (parr s4)) s4) in *.
     assert (Hin2 : In x (clist s2)) by (rewrite fr_clist0; auto).
     assert (CQ : cq (cx s2 x) = 0).
-    { rewrite CQ2. destruct (has_in re) eqn:HI; [apply RQ1; auto|].
-      rewrite (NR1 eq_refl). destruct (has_hup_err re) eqn:HH.
-      - apply (proj2 (HTx HH)). auto.
-      - (* not read, not flagged by HUP: it cannot be flagged at all *)
-        exfalso. rewrite ES2, ES1 in CF. rewrite (Fl_clist s x I F Hin) in CF. discriminate. }
-    destruct (visit_close x s2 sg s5 I2 G2 F2 CF Hin2 CQ) as (G5 & F5 & Q5); auto.
-    split; [constructor; auto|].
-    + unfold s5, s4, s3. simpl. rewrite fr_phases0. auto.
-    + unfold s5, s4, s3. simpl. rewrite fr_phases0, fr_pcap0, fr_parr0. intros Bp. specialize (CAP B).
-      assert (length (poll_remove i (parr s)) <= length (parr s)); [|lia].
-      pose proof (poll_remove_perm _ _ _ N) as P. apply Permutation_length in P. simpl in P. lia.
-    + unfold s5, s4, s3. simpl. rewrite fr_phases0. auto.
-    + split; auto. unfold s5, s4, s3. simpl. split; auto. split; auto. split; auto. split.
-      * intros j y r H1 H2 Nj. simpl in Nj. rewrite ?fr_parr0 in Nj.
-        rewrite poll_remove_lower in Nj; [|lia|apply nth_error_Some; congruence].
-        pose proof (OTH j y r H1 H2 Nj) as Hy. simpl. apply Nat.eqb_neq in Hy. rewrite Hy.
-        apply Nat.eqb_neq in Hy. rewrite CXO by auto. apply (HT j y r); auto.
-      * intros Q. apply Q5. intros z Hz Hne. rewrite CXO by auto. apply Q. rewrite <- fr_clist0. auto.
+    { rewrite CQ2. destruct (has_in re) eqn:HI.
+      - apply CQ1. rewrite (RF1 eq_refl).
+        destruct (has_hup_err re) eqn:HH; [apply (proj1 (HTx HH))|].
+        rewrite (FF2 eq_refl) in CF. rewrite (RF1 eq_refl) in CF. auto.
+      - rewrite (NR1 eq_refl). destruct (has_hup_err re) eqn:HH.
+        + apply (proj2 (HTx HH)). auto.
+        + exfalso. rewrite (FF2 eq_refl), (NR1 eq_refl) in CF.
+          destruct GXs as (sg0 & h0 & G0).
+          rewrite (Fl_clist s x I (gt_fl _ _ _ _ _ _ G0) Hin) in CF. discriminate. }
+    destruct (visit_close E U s2 sg1 h1 x s5 G2 CF Hin2 CQ IP) as (G5 & _); auto.
+    + unfold s5, s4, s3. simpl. 
+      pose proof (poll_remove_perm _ _ _ (eq_trans (f_equal (fun l => nth_error l i) fr_parr0) N)) as P.
+      apply Permutation_length in P. simpl in P. lia.
+    + split; [exists sg1, h1; auto|]. split; auto. unfold s5, s4, s3. simpl.
+      split; auto. split; auto. split; auto.
+      intros j y r H1 H2 Nj. simpl in Nj. rewrite ?fr_parr0 in Nj.
+      rewrite poll_remove_lower in Nj; [|lia|apply nth_error_Some; congruence].
+      pose proof (OTH j y r H1 H2 Nj) as Hy. simpl. apply Nat.eqb_neq in Hy. rewrite Hy.
+      apply Nat.eqb_neq in Hy. apply HTO; auto. apply (HT j y r); auto.
   - (* kept *)
-    assert (F2' : Fl s2) by (eapply Flx_Fl; eauto).
-    split; [constructor; auto|].
-    + rewrite fr_phases0. auto.
-    + rewrite fr_bk0, fr_parr0, fr_phases0, fr_pcap0. auto.
-    + rewrite fr_phases0. auto.
-    + split; auto. split; auto. split; auto. split; auto. split.
-      * intros j y r H1 H2 Nj. rewrite fr_parr0 in Nj.
-        rewrite CXO by (eapply OTH; eauto). apply (HT j y r); auto.
-      * intros Q z Hz. rewrite fr_clist0 in Hz.
-        destruct (Nat.eq_dec z x) as [->|Hne]; [|rewrite CXO; auto].
-        rewrite (NF2 eq_refl). apply Q1; auto.
-        rewrite <- (NF2 eq_refl). auto.
+    split; [exists sg1, h1; apply (GT_unflag _ _ _ _ _ _ G2 CF)|].
+    split; auto. split; auto. split; auto. split; auto.
+    intros j y r H1 H2 Nj. rewrite fr_parr0 in Nj.
+    apply HTO; [eapply OTH; eauto|]. apply (HT j y r); auto.
 Qed.
 
-Lemma poll_walk_busy : forall k n s sg, GI s sg -> bk s = BPoll -> idle s = false -> toexit s = false ->
+Lemma poll_walk_busy : forall k n E U s, GX E U s -> bk s = BPoll -> idle s = false -> toexit s = false ->
   PHt k s ->
-  GI (poll_walk k n s) sg /\ bk (poll_walk k n s) = BPoll /\ idle (poll_walk k n s) = false /\
+  GX E U (poll_walk k n s) /\ bk (poll_walk k n s) = BPoll /\ idle (poll_walk k n s) = false /\
   toexit (poll_walk k n s) = false.
 Proof.
-  induction k as [|i IH]; intros n s sg GIs B ID EX HT; simpl; [auto|].
+  induction k as [|i IH]; intros n E U s GXs B ID EX HT; simpl; [auto|].
   destruct (Nat.eq_dec i 0) as [->|Hi].
   - (* the signal slot *)
     unfold poll_step. simpl Nat.eqb. cbv iota.
     assert (exists s', s' = (if has_in (snd (nth 0 (parr s) (0, 0))) then handle_wakeup s else s) /\
-              GI s' sg /\ bk s' = BPoll /\ idle s' = false /\ toexit s' = false) as (s' & E' & A).
+              GX E U s' /\ bk s' = BPoll /\ idle s' = false /\ toexit s' = false) as (s' & E' & A).
     { eexists; split; [reflexivity|]. destruct (has_in _); [|auto].
-      destruct (hw_GI s sg GIs EX) as (sg' & A1 & A2 & A3 & A4 & A5 & A6 & A7 & A8 & A9 & A10 & A11 & A12 & A13).
-      destruct (A12 ID) as (-> & T & _).
-      split; [constructor; auto; rewrite A8, A9; auto|]. rewrite A8. auto. }
+      destruct (hw_GT E U s GXs EX) as (E1 & U1 & A1 & A7 & A8 & A9 & A10 & A11 & A12 & A13).
+      { intros C. congruence. }
+      destruct (A12 ID) as (-> & -> & T & _).
+      split; [auto|]. rewrite A8. auto. }
     rewrite <- E'. destruct (Nat.eqb n 0); simpl; auto.
-  - destruct (poll_slot_GI i n s sg GIs B ltac:(lia) HT) as (A1 & A2 & A3 & A4 & A5 & A6 & _).
+  - destruct (poll_slot_GX i n E U s GXs B ltac:(lia) HT) as (A1 & A2 & A3 & A4 & A5 & A6).
     destruct (poll_step i n s) as [s' n']. simpl in *.
     destruct (Nat.eqb n' 0).
     + rewrite A3, A4. auto.
@@ -974,19 +1350,19 @@ Proof.
     apply IH; auto; try lia. intros j x re H1 H2. apply Z; auto.
 Qed.
 
-Lemma Q_poll : forall s sg, GI s sg -> bk s = BPoll -> kern s = [] -> Quiet s.
+Lemma Q_poll : forall E U s, GX E U s -> bk s = BPoll -> kern s = [] -> Quiet s.
 Proof.
-  intros s sg GIs B K x Hx. unfold kern in K. rewrite B in K.
-  destruct (i_poll s (gi_inv _ _ GIs) B) as [_ HP].
+  intros E U s GXs B K x Hx. unfold kern in K. rewrite B in K.
+  destruct (i_poll s (GX_inv _ _ _ GXs) B) as [_ HP].
   assert (In x (map fst (parr s))) as Hs.
   { eapply Permutation_in; [symmetry; apply HP|]. right; auto. }
-  apply in_map_iff in Hs. destruct Hs as (p & E & Hp).
+  apply in_map_iff in Hs. destruct Hs as (p & Ep & Hp).
   destruct (nz (events s x)) eqn:N.
   - assert (In (fst p, events s (fst p)) (filter (fun p => nz (snd p)) (map (fun p => (fst p, events s (fst p))) (parr s)))) as C.
-    { apply filter_In. split; [apply in_map_iff; exists p; auto|simpl; rewrite E; auto]. }
+    { apply filter_In. split; [apply in_map_iff; exists p; auto|simpl; rewrite Ep; auto]. }
     rewrite K in C. destruct C.
   - unfold nz in N. apply Bool.negb_false_iff, Nat.eqb_eq in N.
-    unfold events in N. assert (x <> 0) as X0 by (apply (i_reg s (gi_inv _ _ GIs) x Hx)).
+    unfold events in N. assert (x <> 0) as X0 by (apply (i_reg s (GX_inv _ _ _ GXs) x Hx)).
     apply Nat.eqb_neq in X0. rewrite X0 in N. auto.
 Qed.
 
@@ -1001,11 +1377,10 @@ Proof.
   - apply IH; auto. destruct H as [H|H]; auto. subst. congruence.
 Qed.
 
-Lemma GI_set_parr_rev : forall s sg f, GI s sg -> GI (set_parr (map (fun p => (fst p, f (fst p))) (parr s)) s) sg.
+Lemma GX_set_parr_rev : forall E U s f, GX E U s -> GX E U (set_parr (map (fun p => (fst p, f (fst p))) (parr s)) s).
 Proof.
-  intros s sg f [I G F PH CAP FIN]. constructor; simpl; auto.
-  - eapply Inv_view; [|apply I]. constructor; simpl; auto. rewrite map_map. simpl. auto.
-  - eapply GC_view2; [| | | | |apply G]; auto.
+  intros E U s f G. eapply GX_view; [apply G| | | | | | | |]; simpl; auto.
+  - eapply Inv_view; [|apply (GX_inv _ _ _ G)]. constructor; simpl; auto. rewrite map_map. simpl. auto.
   - rewrite map_length. auto.
 Qed.
 
@@ -1019,38 +1394,39 @@ Proof. intros f l H. destruct l as [|q l]; simpl in *; [discriminate|]. inversio
 
 Lemma poll_iter : iter_ok (fun _ => True) BPoll.
 Proof.
-  intros s sg GIs EX ID B _. unfold iter, kern_o.
+  intros E U s GXs EX ID B _. unfold iter, kern_o.
   destruct (kern s) as [|p r] eqn:K.
   - (* idle *)
-    pose proof (Q_poll s sg GIs B K) as Q.
+    pose proof (Q_poll E U s GXs B K) as Q.
     simpl. unfold dispatch.
     assert (Bi : bk (inject s) = BPoll) by (unfold inject; simpl; rewrite bk_edge; auto).
     rewrite Bi. unfold dispatch_poll.
     set (s0 := inject s) in *. set (rep := kern s0).
-    pose proof (GI_inject s sg GIs) as GI0. fold s0 in GI0.
+    pose proof (GX_inject E U s GXs) as GX0. fold s0 in GX0.
     assert (P0 : parr s0 = parr s) by (unfold s0, inject; simpl; rewrite parr_edge; auto).
     assert (CX0 : cx s0 = cx s) by (unfold s0, inject; simpl; rewrite cx_edge; auto).
     assert (CL0 : clist s0 = clist s) by (unfold s0, inject; simpl; rewrite clist_edge; auto).
     assert (EV0 : events s0 0 = 1) by (unfold events, s0, inject; simpl; rewrite wk_edge; simpl; auto).
-    destruct (i_poll s0 (gi_inv _ _ GI0) Bi) as [HD HP].
+    destruct (i_poll s0 (GX_inv _ _ _ GX0) Bi) as [HD HP].
     assert (IN0 : In 0 (map fst (parr s0))) by (destruct (map fst (parr s0)); simpl in HD; [discriminate|inversion HD; left; auto]).
     assert (L0 : lookup 0 rep = 1).
     { unfold rep. rewrite lookup_kern_poll_in; auto. rewrite EV0. auto. }
     assert (LX : forall x, In x (clist s) -> lookup x rep = 0).
-    { intros x Hx. destruct (lookup_kern_poll s0 x Bi) as [E|E]; auto. fold rep in E. rewrite E.
-      unfold events. assert (x <> 0) as X0 by (apply (i_reg s (gi_inv _ _ GIs) x Hx)).
+    { intros x Hx. destruct (lookup_kern_poll s0 x Bi) as [Eq|Eq]; auto. fold rep in Eq. rewrite Eq.
+      unfold events. assert (x <> 0) as X0 by (apply (i_reg s (GX_inv _ _ _ GXs) x Hx)).
       apply Nat.eqb_neq in X0. rewrite X0, CX0. apply Q; auto. }
     assert (NR : length rep <> 0).
     { unfold rep, kern. rewrite Bi.
       assert (In (0, events s0 0) (filter (fun p => nz (snd p)) (map (fun p => (fst p, events s0 (fst p))) (parr s0)))) as C.
       { apply filter_In. split; [|simpl; rewrite EV0; auto].
-        apply in_map_iff in IN0. destruct IN0 as (q & E & Hq). apply in_map_iff. exists q. rewrite E. auto. }
+        apply in_map_iff in IN0. destruct IN0 as (q & Eq & Hq). apply in_map_iff. exists q. rewrite Eq. auto. }
       destruct (filter _ _); [destruct C|simpl; lia]. }
     assert (Nat.ltb 0 (length rep) = true) as -> by (apply Nat.ltb_lt; lia).
     set (s1 := set_parr _ s0).
-    pose proof (GI_set_parr_rev s0 sg (fun x => lookup x rep) GI0) as GI1. fold s1 in GI1.
+    pose proof (GX_set_parr_rev E U s0 (fun x => lookup x rep) GX0) as GX1. fold s1 in GX1.
     assert (B1 : bk s1 = BPoll) by auto.
-    rewrite poll_walk_quiet_slots; auto; try apply GI1.
+    destruct GX1 as (sg1 & h1 & GT1).
+    rewrite poll_walk_quiet_slots; auto; try apply GT1.
     + (* the wake callback runs the next phase or exits *)
       rewrite poll_step0.
       assert (snd (nth 0 (parr s1) (0, 0)) = 1) as ->.
@@ -1058,16 +1434,17 @@ Proof.
         rewrite (nth0_map (fun x => lookup x rep)); auto. }
       change (has_in 1) with true. cbv iota.
       assert (EX1 : toexit s1 = false) by (unfold s1, s0, inject; simpl; rewrite toexit_edge; auto).
-      destruct (hw_GI s1 sg GI1 EX1) as (sg' & A1 & A2 & A3 & A4 & A5 & A6 & A7 & A8 & A9 & A10 & A11 & A12 & A13).
-      exists sg'. split; [constructor; auto; rewrite A8, A9; auto|]. split; auto. split; auto.
+      assert (Q1 : Quiet s1) by (eapply Quiet_view; [| |apply Q]; unfold s1; simpl; auto).
+      destruct (hw_GT E U s1 (ex_intro _ sg1 (ex_intro _ h1 GT1)) EX1 (fun _ => Q1)) as (E' & U' & A1 & A7 & A8 & A9 & A10 & A11 & A12 & A13).
+      exists E', U'. split; auto. split; auto. split; auto.
       split; [rewrite A8; auto|].
-      intros C. destruct (A13 C) as (_ & PHe & X1 & X2). split; auto.
-      eapply Quiet_view; [apply X1|apply X2|]. eapply Quiet_view; [| |apply Q]; unfold s1; simpl; auto.
+      intros C. destruct (A13 C) as (_ & _ & PHe & X1 & X2). split; auto.
+      eapply Quiet_view; [apply X1|apply X2|auto].
     + intros j x re H1 H2 Nj.
       change (parr s1) with (map (fun p => (fst p, lookup (fst p) rep)) (parr s0)) in Nj. rewrite nth_error_map in Nj.
       destruct (nth_error (parr s0) j) as [[y ry]|] eqn:Ny; [|discriminate]. simpl in Nj. inversion Nj; subst.
       apply LX. rewrite <- CL0.
-      destruct (Inv_poll_step_close s0 x ry j (gi_inv _ _ GI0) Bi H1 Ny) as [Hin _]. auto.
+      destruct (Inv_poll_step_close s0 x ry j (GX_inv _ _ _ GX0) Bi H1 Ny) as [Hin _]. auto.
     + change (parr s1) with (map (fun p => (fst p, lookup (fst p) rep)) (parr s0)). rewrite map_length.
       destruct (parr s0); [destruct IN0|simpl; lia].
   - (* busy *)
@@ -1075,20 +1452,20 @@ Proof.
     set (rep := p :: r) in *. cbv beta.
     change (Nat.ltb 0 (S (length r))) with true. cbv iota.
     set (s1 := set_parr _ s).
-    pose proof (GI_set_parr_rev s sg (fun x => lookup x rep) GIs) as GI1. fold s1 in GI1.
+    pose proof (GX_set_parr_rev E U s (fun x => lookup x rep) GXs) as GX1. fold s1 in GX1.
     assert (HT : PHt (length (parr s1)) s1).
     { intros j x re H1 H2 Nj.
       change (parr s1) with (map (fun p => (fst p, lookup (fst p) rep)) (parr s)) in Nj. rewrite nth_error_map in Nj.
       destruct (nth_error (parr s) j) as [[y ry]|] eqn:Ny; [|discriminate]. simpl in Nj. inversion Nj; subst.
-      destruct (Inv_poll_step_close s x ry j (gi_inv _ _ GIs) B H1 Ny) as [Hin _].
-      assert (x <> 0) as X0 by (apply (i_reg s (gi_inv _ _ GIs) x Hin)).
+      destruct (Inv_poll_step_close s x ry j (GX_inv _ _ _ GXs) B H1 Ny) as [Hin _].
+      assert (x <> 0) as X0 by (apply (i_reg s (GX_inv _ _ _ GXs) x Hin)).
       unfold s1. simpl.
-      destruct (lookup_kern_poll s x B) as [E|E]; rewrite K in E; fold rep in E; rewrite E.
+      destruct (lookup_kern_poll s x B) as [Eq|Eq]; rewrite K in Eq; fold rep in Eq; rewrite Eq.
       - apply Htc_zero.
       - unfold events. apply Nat.eqb_neq in X0. rewrite X0.
-        eapply Htc_events. apply (g_pc _ _ (gi_gc _ _ GIs)). }
-    destruct (poll_walk_busy (length (parr s1)) (S (length r)) s1 sg GI1) as (A1 & A2 & A3 & A4); auto.
-    exists sg. split; auto. split; auto. split; auto. split; auto. intros C. congruence.
+        destruct GXs as (sg0 & h0 & G0). eapply Htc_events. apply (g_pc _ _ (gt_gc _ _ _ _ _ _ G0)). }
+    destruct (poll_walk_busy (length (parr s1)) (S (length r)) E U s1 GX1) as (A1 & A2 & A3 & A4); auto.
+    exists E, U. split; auto. split; auto. split; auto. split; auto. intros C. congruence.
 Qed.
 
 (* ------------------------------------------------------------------ epoll: the ready list *)
@@ -1220,53 +1597,6 @@ Proof.
   - apply EP_do_act; auto.
 Qed.
 
-(* once the peer's write side is shut nothing more arrives *)
-Lemma dead_do_act : forall a s y, ceof (cx s y) = true ->
-  ceof (cx (do_act a s) y) = true /\ cq (cx (do_act a s) y) = cq (cx s y).
-Proof.
-  intros a s y CE. destruct a; unfold do_act.
-  - destruct (can_write (cx s y0)) eqn:CW; [|simpl; auto].
-    assert (y <> y0) as N.
-    { intro; subst y0. unfold can_write in CW. rewrite CE in CW. simpl in CW.
-      rewrite Bool.andb_false_r in CW. discriminate. }
-    apply Nat.eqb_neq in N.
-    destruct (Nat.eqb k 0); simpl; rewrite ?cx_edge; simpl; rewrite N; auto.
-  - destruct (cpopen (cx s y0) && negb (ceof (cx s y0))); [|simpl; auto].
-    simpl. rewrite cx_edge. simpl. destruct (Nat.eqb y y0) eqn:E; auto.
-    apply Nat.eqb_eq in E. subst. simpl. auto.
-  - destruct (cpopen (cx s y0)); [|simpl; auto].
-    destruct (is_tcp (cx s y0) && ceof (cx s y0)); simpl; rewrite ?cx_edge; simpl;
-      (destruct (Nat.eqb y y0) eqn:E; auto; apply Nat.eqb_eq in E; subst; simpl; auto).
-  - destruct (cadded (cx s y0) || Nat.eqb y0 0); [simpl; auto|].
-    set (c1 := mkC _ _ _ _ _ _ true _ _ _).
-    destruct (add_ctx_other y0 (updc y0 c1 s)) as (_ & _ & _ & D & _).
-    destruct (add_ctx y0 (updc y0 c1 s)) as [s1 ok]. simpl in D. simpl. rewrite D. simpl.
-    destruct (Nat.eqb y y0) eqn:E; auto. apply Nat.eqb_eq in E. subst. rewrite Nat.eqb_refl. simpl. auto.
-  - destruct (cclosed (cx s y0)); [simpl; auto|].
-    destruct (negb (is_pipe (cx s y0))); simpl; rewrite ?cx_edge; simpl;
-      (destruct (Nat.eqb y y0) eqn:E; auto; apply Nat.eqb_eq in E; subst; simpl; auto).
-  - simpl. rewrite cx_edge. auto.
-  - simpl. auto.
-Qed.
-
-Lemma Htc_do_acts : forall l s y e, Htc e (cx s y) -> Htc e (cx (do_acts l s) y).
-Proof.
-  induction l as [|a l IH]; intros s y e H; simpl; auto.
-  apply IH. intros HH. destruct (H HH) as [CE CQ].
-  destruct (dead_do_act a s y CE) as [A B]. split; auto. intros HI. rewrite B. auto.
-Qed.
-
-Lemma Htc_handle_wakeup : forall s y e, Htc e (cx s y) -> Htc e (cx (handle_wakeup s) y).
-Proof.
-  intros s y e H. unfold handle_wakeup.
-  set (s1 := emit EWake (set_wk 0 s)).
-  assert (H1 : Htc e (cx s1 y)) by auto.
-  destruct (idle s1); auto.
-  destruct (phases (set_idle false s1)) as [|p r].
-  - apply (Htc_do_acts [AExit] (set_idle false s1)). auto.
-  - apply (Htc_do_acts p (set_phases r (set_idle false s1))). auto.
-Qed.
-
 (* the wake callback keeps the ready-list invariant: the eventfd is cleared, and every action of the
    phase wakes what it touches *)
 Lemma EP_handle_wakeup : forall pend s, forallb phase_act_ok (concat (phases s)) = true -> bk s = BEpoll ->
@@ -1353,109 +1683,125 @@ Definition CReg (s : st) : Prop := In 0 (ereg s) /\ forall x, In x (clist s) -> 
 Lemma ep_walk_app : forall l1 l2 s, ep_walk (l1 ++ l2) s = ep_walk l2 (ep_walk l1 s).
 Proof. induction l1 as [|[x e] l1 IH]; intros; simpl; auto. Qed.
 
+(* the read callback and the ready list: the writes of its triggers wake their targets; the context
+   itself is drained unless it is flagged *)
+Lemma EP_cb_read : forall x pend s, bk s = BEpoll -> all_writes (trigs s) -> EP (x :: pend) s ->
+  EP (x :: pend) (cb_read x s) /\ (events_c (cx (rd_mid x s) x) = 0 -> x <> 0 -> EP pend (cb_read x s)).
+Proof.
+  intros x pend s B W E. rewrite cb_read_split.
+  assert (OKF : forallb phase_act_ok (map tact (rd_fire x s)) = true).
+  { apply forallb_forall. intros a Ha. apply in_map_iff in Ha. destruct Ha as (t & <- & Ht).
+    unfold rd_fire in Ht. apply filter_In in Ht. pose proof (W t (proj1 Ht)). destruct (tact t); try discriminate; auto. }
+  assert (EVO : forall z, z <> x -> events (rd_mid x s) z = events s z).
+  { intros z Hz. unfold events, rd_mid. simpl. apply Nat.eqb_neq in Hz. rewrite Hz. auto. }
+  split.
+  - apply EP_do_acts; auto. destruct E as [ND SUB ED]. constructor; auto.
+    intros z Hz Hev. destruct (Nat.eq_dec z x) as [->|N]; [right; left; auto|].
+    rewrite EVO in Hev by auto. apply ED; auto.
+  - intros DR X0. apply EP_do_acts; auto. destruct E as [ND SUB ED]. constructor; auto.
+    intros z Hz Hev. destruct (Nat.eq_dec z x) as [->|N].
+    + exfalso. apply Hev. unfold events. apply Nat.eqb_neq in X0. rewrite X0. auto.
+    + rewrite EVO in Hev by auto. destruct (ED z Hz Hev) as [H|[H|H]]; auto. congruence.
+Qed.
+
 (* the events of contexts (no wake event among them) *)
-Lemma ep_walk_ctx : forall evs extra s sg, GI s sg -> bk s = BEpoll -> ~ In 0 (map fst evs) ->
+Lemma ep_walk_ctx : forall evs extra E U s, GX E U s -> bk s = BEpoll -> ~ In 0 (map fst evs) ->
   NoDup (map fst evs) -> (forall x, In x (map fst evs) -> In x (ereg s)) -> EvOK s evs ->
   EP (map fst evs ++ extra) s -> CReg s ->
-  GI (ep_walk evs s) sg /\ bk (ep_walk evs s) = BEpoll /\ ecap (ep_walk evs s) = ecap s /\
+  GX E U (ep_walk evs s) /\ bk (ep_walk evs s) = BEpoll /\ ecap (ep_walk evs s) = ecap s /\
   toexit (ep_walk evs s) = toexit s /\ idle (ep_walk evs s) = idle s /\ phases (ep_walk evs s) = phases s /\
   EP extra (ep_walk evs s) /\ CReg (ep_walk evs s) /\
-  (forall y, ~ In y (map fst evs) -> cx (ep_walk evs s) y = cx s y) /\
-  (forall z, In z (ereg s) -> ~ In z (map fst evs) -> In z (ereg (ep_walk evs s))) /\
-  (Quiet s -> Quiet (ep_walk evs s)).
+  (forall y e, ~ In y (map fst evs) -> Htc e (cx s y) -> Htc e (cx (ep_walk evs s) y)) /\
+  (forall z, In z (ereg s) -> ~ In z (map fst evs) -> In z (ereg (ep_walk evs s))).
 Proof.
-  induction evs as [|[x e] r IH]; intros extra s sg GIs B N0 ND Hreg OK E CR; simpl.
+  induction evs as [|[x e] r IH]; intros extra E U s GXs B N0 ND Hreg OK EPs CR; simpl.
   - split; [auto|]. split; [auto|]. split; [auto|]. split; [auto|]. split; [auto|]. split; [auto|].
-    split; [auto|]. split; [auto|]. split; [auto|]. split; auto.
-  - simpl in N0, ND, Hreg, E. inversion ND as [|? ? Hxr ND']; subst.
+    split; [auto|]. split; [auto|]. split; auto.
+  - simpl in N0, ND, Hreg, EPs. inversion ND as [|? ? Hxr ND']; subst.
     assert (X0 : x <> 0) by (intro; apply N0; auto).
-    destruct (Inv_ep_step x e s (gi_inv _ _ GIs) B (Hreg x (or_introl eq_refl))) as (IS & BS & RS).
-    destruct GIs as [I G F PH CAP FIN].
+    pose proof (GX_inv _ _ _ GXs) as I.
+    destruct (Inv_ep_step x e s I B (Hreg x (or_introl eq_refl))) as (IS & BS & RS).
     assert (Hin : In x (clist s)).
     { destruct (i_ereg s I B x (Hreg x (or_introl eq_refl))); auto; congruence. }
     destruct (OK x e (or_introl eq_refl)) as (LV & HT & _). specialize (HT X0).
-    destruct (visit_read (has_in e) x s sg I G F Hin) as (I1 & G1 & F1 & FR1 & O1 & Q1 & D1 & CE1 & _ & _ & _ & CQ1 & NR1 & RQ1).
+    destruct (visit_read (has_in e) E U s x GXs Hin) as (sg1 & h1 & G1 & FR1 & E1 & NR1 & CQ1 & CE1 & RF1 & DR1).
     set (s1 := if has_in e then cb_read x s else s) in *.
-    destruct (visit_flag (negb (has_in e) && has_hup_err e) x s1 sg I1 G1 F1) as (I2 & G2 & F2 & FR2 & O2 & NF2 & T2 & CQ2).
+    assert (EP1 : EP (x :: map fst r ++ extra) s1 /\ (has_in e = true -> cflag (cx s1 x) = false -> EP (map fst r ++ extra) s1)).
+    { unfold s1. destruct (has_in e) eqn:HI.
+      - destruct (EP_cb_read x (map fst r ++ extra) s B (GX_writes _ _ _ GXs) EPs) as [A C].
+        split; auto; intros _ CF; apply C; auto.
+      - split; auto; intros; discriminate. }
+    destruct EP1 as [EP1 EP1k].
+    destruct (visit_flag (negb (has_in e) && has_hup_err e) E U s1 sg1 h1 x G1) as (G2 & FR2 & RD2 & T2 & O2 & NF2 & CQ2 & FT2 & FF2).
     { intros H. apply Bool.andb_true_iff in H. destruct H as [_ H]. rewrite CE1. apply (HT H). }
     set (s2 := if negb (has_in e) && has_hup_err e then set_flag x s1 else s1) in *.
     assert (ES : (if has_in e then cb_read x s else if has_hup_err e then set_flag x s else s) = s2).
     { unfold s2, s1. destruct (has_in e), (has_hup_err e); auto. }
     pose proof (frame_trans _ _ _ FR1 FR2) as FR. destruct FR.
-    assert (CXO : forall z, z <> x -> cx s2 z = cx s z) by (intros z Hz; rewrite O2, O1; auto).
-    assert (EVO : forall z, z <> x -> events s2 z = events s z).
-    { intros z Hz. unfold events. rewrite fr_wk0, CXO; auto. }
-    assert (exists s', ep_step x e s = s' /\ GI s' sg /\ ecap s' = ecap s /\ toexit s' = toexit s /\ idle s' = idle s /\
-              phases s' = phases s /\ EP (map fst r ++ extra) s' /\ CReg s' /\ (forall y, y <> x -> cx s' y = cx s y) /\
-              (Quiet s -> Quiet s')) as (s' & ES' & GI' & C1 & C2 & C3 & C4 & E' & CR' & CX' & Q').
+    assert (EVO2 : forall z, z <> x -> events s2 z = events s1 z).
+    { intros z Hz. unfold events. rewrite (fr_wk _ _ FR2), O2; auto. }
+    assert (HTO : forall z f, z <> x -> Htc f (cx s z) -> Htc f (cx s2 z)).
+    { intros z f Hz H. rewrite O2 by auto. unfold s1. destruct (has_in e); [apply Htc_cb_read; auto|auto]. }
+    pose proof (gt_inv _ _ _ _ _ _ G2) as I2.
+    assert (exists s', ep_step x e s = s' /\ GX E U s' /\ ecap s' = ecap s /\ toexit s' = toexit s /\ idle s' = idle s /\
+              phases s' = phases s /\ EP (map fst r ++ extra) s' /\ CReg s' /\
+              (forall y f, y <> x -> Htc f (cx s y) -> Htc f (cx s' y))) as (s' & ES' & GX' & C1 & C2 & C3 & C4 & E' & CR' & HT').
     { unfold ep_step. apply Nat.eqb_neq in X0. rewrite X0. apply Nat.eqb_neq in X0. cbv zeta. rewrite ES.
       destruct (cflag (cx s2 x)) eqn:CF.
       - (* closed: EPOLL_CTL_DEL, close callback, removal *)
         eexists; split; [reflexivity|].
         assert (Hin2 : In x (clist s2)) by (rewrite fr_clist0; auto).
         assert (CQ : cq (cx s2 x) = 0).
-        { rewrite CQ2. destruct (has_in e) eqn:HI; [apply RQ1; auto|].
-          unfold s1. destruct LV as [LV|LV]; [congruence|]. apply (proj2 (HT LV)). auto. }
-        match goal with |- GI ?t sg /\ _ => set (s5 := t) end.
-        destruct (visit_close x s2 sg s5 I2 G2 F2 CF Hin2 CQ) as (G5 & F5 & Q5); auto.
-        split; [constructor; auto|].
-        + unfold ep_step in IS. apply Nat.eqb_neq in X0. rewrite X0 in IS. cbv zeta in IS. rewrite ES, CF in IS. exact IS.
-        + unfold s5. simpl. rewrite fr_phases0. auto.
-        + unfold s5. simpl. rewrite fr_bk0, B. discriminate.
-        + unfold s5. simpl. rewrite fr_phases0. auto.
-        + unfold s5. simpl. split; auto. split; auto. split; auto. split; auto. split; [|split; [|split]].
-          * destruct E as [END ESUB EED]. constructor; simpl.
-            -- apply rm_NoDup. rewrite fr_erdl0. auto.
-            -- intros z Hz. apply rm_In in Hz. destruct Hz as [Hz Hne]. apply rm_In. split; auto.
-               rewrite fr_ereg0. apply ESUB. rewrite <- fr_erdl0. auto.
-            -- intros z Hz Hev. apply rm_In in Hz. destruct Hz as [Hz Hne].
-               assert (events s z <> 0) as Hev'.
-               { unfold events in *. simpl in Hev. rewrite fr_wk0 in Hev.
-                 destruct (Nat.eqb z 0); auto. apply Nat.eqb_neq in Hne. rewrite Hne in Hev.
-                 apply Nat.eqb_neq in Hne. rewrite CXO in Hev; auto. }
-               rewrite fr_ereg0 in Hz. destruct (EED z Hz Hev') as [H|[H|H]]; [left|congruence|right; auto].
-               apply rm_In. split; auto. rewrite fr_erdl0. auto.
-          * destruct CR as [CR0 CRC]. split.
-            -- apply rm_In. split; [rewrite fr_ereg0; auto|auto].
-            -- intros z Hz. apply rm_In in Hz. destruct Hz as [Hz Hne]. apply rm_In. split; auto.
-               rewrite fr_ereg0. apply CRC. rewrite <- fr_clist0. auto.
-          * intros y Hy. apply Nat.eqb_neq in Hy. rewrite Hy. apply Nat.eqb_neq in Hy. apply CXO; auto.
-          * intros Q. apply Q5. intros z Hz Hne. rewrite CXO by auto. apply Q. rewrite <- fr_clist0. auto.
+        { rewrite CQ2. destruct (has_in e) eqn:HI.
+          - apply CQ1. rewrite (RF1 eq_refl).
+            destruct (has_hup_err e) eqn:HH; [apply (proj1 (HT HH))|].
+            simpl in FF2. rewrite (FF2 eq_refl) in CF. rewrite (RF1 eq_refl) in CF. auto.
+          - rewrite (NR1 eq_refl). destruct LV as [LV|LV]; [congruence|]. apply (proj2 (HT LV)). auto. }
+        match goal with |- GX E U ?t /\ _ => set (s5 := t) end.
+        assert (I5 : Inv s5).
+        { unfold ep_step in IS. apply Nat.eqb_neq in X0. rewrite X0 in IS. cbv zeta in IS. rewrite ES, CF in IS. exact IS. }
+        destruct (visit_close E U s2 sg1 h1 x s5 G2 CF Hin2 CQ I5) as (G5 & _); auto.
+        split; [exists sg1, h1; auto|].
+        unfold s5. simpl. split; auto. split; auto. split; auto. split; auto. split; [|split].
+        + destruct EP1 as [END ESUB EED]. constructor; simpl.
+          * apply rm_NoDup. rewrite RD2. auto.
+          * intros z Hz. apply rm_In in Hz. destruct Hz as [Hz Hne]. apply rm_In. split; auto.
+            rewrite (fr_ereg _ _ FR2). apply ESUB. rewrite <- RD2. auto.
+          * intros z Hz Hev. apply rm_In in Hz. destruct Hz as [Hz Hne].
+            assert (events s1 z <> 0) as Hev'.
+            { rewrite <- EVO2 by auto. unfold events in *. simpl in Hev.
+              destruct (Nat.eqb z 0); auto. apply Nat.eqb_neq in Hne. rewrite Hne in Hev. auto. }
+            rewrite (fr_ereg _ _ FR2) in Hz. destruct (EED z Hz Hev') as [H|[H|H]]; [left|congruence|right; auto].
+            apply rm_In. split; auto. rewrite RD2. auto.
+        + destruct CR as [CR0 CRC]. split.
+          * apply rm_In. split; [rewrite fr_ereg0; auto|auto].
+          * intros z Hz. apply rm_In in Hz. destruct Hz as [Hz Hne]. apply rm_In. split; auto.
+            rewrite fr_ereg0. apply CRC. rewrite <- fr_clist0. auto.
+        + intros y f Hy H. apply Nat.eqb_neq in Hy. rewrite Hy. apply Nat.eqb_neq in Hy. apply HTO; auto.
       - (* kept: it was read and is drained *)
         exists s2. split; auto.
         assert (RD : has_in e = true).
         { destruct (has_in e) eqn:HI; auto. destruct LV as [LV|LV]; [congruence|].
-          exfalso. unfold s2 in CF. rewrite LV in CF. simpl in CF. unfold set_flag in CF. simpl in CF.
-          rewrite Nat.eqb_refl in CF. simpl in CF. discriminate. }
-        assert (DR : events_c (cx s2 x) = 0).
-        { rewrite (NF2 eq_refl). apply D1; auto. rewrite <- (NF2 eq_refl). auto. }
-        split; [constructor; auto|].
-        + eapply Flx_Fl; eauto.
-        + rewrite fr_phases0. auto.
-        + rewrite fr_bk0, B. discriminate.
-        + rewrite fr_phases0. auto.
-        + split; auto. split; auto. split; auto. split; auto. split; [|split; [|split]].
-          * destruct E as [END ESUB EED]. constructor; rewrite ?fr_erdl0, ?fr_ereg0; auto.
-            intros z Hz Hev. destruct (Nat.eq_dec z x) as [->|Hne].
-            -- exfalso. apply Hev. unfold events. apply Nat.eqb_neq in X0. rewrite X0. auto.
-            -- rewrite EVO in Hev by auto. destruct (EED z Hz Hev) as [H|[H|H]]; auto. congruence.
-          * destruct CR as [CR0 CRC]. split; rewrite ?fr_ereg0, ?fr_clist0; auto.
-          * auto.
-          * intros Q z Hz. rewrite fr_clist0 in Hz.
-            destruct (Nat.eq_dec z x) as [->|Hne]; [auto|rewrite CXO; auto]. }
+          exfalso. assert (false = true); [apply FT2; rewrite LV; auto|discriminate]. }
+        assert (S21 : s2 = s1) by (apply NF2; auto).
+        rewrite S21 in *.
+        split; [exists sg1, h1; apply (GT_unflag _ _ _ _ _ _ G1 CF)|].
+        split; [apply (fr_ecap _ _ FR1)|]. split; [apply (fr_toexit _ _ FR1)|]. split; [apply (fr_idle _ _ FR1)|].
+        split; [apply (fr_phases _ _ FR1)|]. split; [apply EP1k; auto|]. split.
+        + destruct CR as [CR0 CRC]. split; rewrite ?(fr_ereg _ _ FR1), ?(fr_clist _ _ FR1); auto.
+        + intros y f Hy H. apply HTO; auto. }
     rewrite ES' in *.
     assert (N0' : ~ In 0 (map fst r)) by (intro; apply N0; auto).
     assert (Hreg' : forall z, In z (map fst r) -> In z (ereg s')).
     { intros z Hz. apply RS; [intro; subst; contradiction|]. auto. }
     assert (OK' : EvOK s' r).
     { intros y f Hyf. destruct (OK y f (or_intror Hyf)) as (L & H & Z). split; auto. split; auto.
-      intros Y0. rewrite CX'; auto. intro; subst y. apply Hxr. apply in_map_iff. exists (x, f). auto. }
-    destruct (IH extra s' sg GI' BS N0' ND' Hreg' OK' E' CR') as (A1 & A2 & A3 & A4 & A5 & A6 & A7 & A8 & A9 & A10 & A11).
+      intros Y0. apply HT'; auto. intro; subst y. apply Hxr. apply in_map_iff. exists (x, f). auto. }
+    destruct (IH extra E U s' GX' BS N0' ND' Hreg' OK' E' CR') as (A1 & A2 & A3 & A4 & A5 & A6 & A7 & A8 & A9 & A10).
     split; auto. split; auto. split; [congruence|]. split; [congruence|]. split; [congruence|]. split; [congruence|].
-    split; auto. split; auto. split; [|split].
-    + intros y Hy. rewrite A9; [apply CX'|]; intro; apply Hy; auto.
+    split; auto. split; auto. split.
+    + intros y f Hy H. apply A9; [intro; apply Hy; auto|]. apply HT'; auto; intro; apply Hy; auto.
     + intros z Hz Hn. apply A10; [|intro; apply Hn; auto]. apply RS; auto; intro; apply Hn; auto.
-    + auto.
 Qed.
 
 Lemma CReg_do_act : forall a s, bk s = BEpoll -> CReg s -> CReg (do_act a s).
@@ -1503,16 +1849,17 @@ Proof.
 Qed.
 
 (* a whole batch: context events, possibly the wake event somewhere among them *)
-Lemma ep_batch : forall evs s sg, GI s sg -> bk s = BEpoll -> toexit s = false ->
+Lemma ep_batch : forall evs E U s, GX E U s -> bk s = BEpoll -> toexit s = false ->
   NoDup (map fst evs) -> (forall x, In x (map fst evs) -> In x (ereg s)) -> EvOK s evs ->
   EP (map fst evs) s -> CReg s ->
-  exists sg', GI (ep_walk evs s) sg' /\ bk (ep_walk evs s) = BEpoll /\ ecap (ep_walk evs s) = ecap s /\
+  (idle s = true -> Quiet s /\ forall x, In x (map fst evs) -> x = 0) ->
+  exists E' U', GX E' U' (ep_walk evs s) /\ bk (ep_walk evs s) = BEpoll /\ ecap (ep_walk evs s) = ecap s /\
     EP [] (ep_walk evs s) /\ CReg (ep_walk evs s) /\
     (In 0 (map fst evs) -> idle (ep_walk evs s) = false) /\
     (idle s = false -> idle (ep_walk evs s) = false /\ toexit (ep_walk evs s) = false) /\
-    (toexit (ep_walk evs s) = true -> phases (ep_walk evs s) = [] /\ (Quiet s -> Quiet (ep_walk evs s))).
+    (toexit (ep_walk evs s) = true -> phases (ep_walk evs s) = [] /\ Quiet (ep_walk evs s)).
 Proof.
-  intros evs s sg GIs B EX ND Hreg OK E CR.
+  intros evs E U s GXs B EX ND Hreg OK EPs CR QI.
   destruct (in_dec Nat.eq_dec 0 (map fst evs)) as [H0|H0].
   - (* the wake event is in the batch *)
     apply in_map_iff in H0. destruct H0 as ([z e] & Z & Hze). simpl in Z. subst z.
@@ -1523,19 +1870,25 @@ Proof.
     { apply NoDup_app_parts; auto. }
     destruct NDs as (NDa & NDb & N0a & N0b & DISJ).
     assert (OKa : EvOK s pre) by (intros y f H; apply OK; apply in_or_app; auto).
-    destruct (ep_walk_ctx pre (0 :: map fst post) s sg GIs B N0a NDa) as (A1 & A2 & A3 & A4 & A5 & A6 & A7 & A8 & A9 & A10 & A11); auto.
+    destruct (ep_walk_ctx pre (0 :: map fst post) E U s GXs B N0a NDa) as (A1 & A2 & A3 & A4 & A5 & A6 & A7 & A8 & A9 & A10); auto.
     { intros y Hy. apply Hreg. apply in_or_app; auto. }
     set (sa := ep_walk pre s) in *.
     destruct (OK 0 e) as (_ & _ & HI); [apply in_or_app; right; left; auto|]. specialize (HI eq_refl).
     rewrite ep_walk_app. simpl. fold sa.
     assert (ep_step 0 e sa = handle_wakeup sa) as -> by (unfold ep_step; simpl; rewrite HI; auto).
     assert (EXa : toexit sa = false) by congruence.
-    destruct (hw_GI sa sg A1 EXa) as (sg' & W1 & W2 & W3 & W4 & W5 & W6 & W7 & W8 & W9 & W10 & W11 & W12 & W13).
+    assert (QIa : idle sa = true -> Quiet sa).
+    { intros C. rewrite A5 in C. destruct (QI C) as [Q ALL0].
+      assert (pre = []) as ->.
+      { destruct pre as [|[y f] pre]; auto. exfalso. apply N0a. simpl. left. apply ALL0. apply in_or_app. left. simpl. auto. }
+      unfold sa. simpl. auto. }
+    destruct (hw_GT E U sa A1 EXa QIa) as (E' & U' & W1 & W7 & W8 & W9 & W10 & W11 & W12 & W13).
     set (sb := handle_wakeup sa) in *.
-    assert (GIb : GI sb sg') by (constructor; auto; rewrite W8, W9; auto).
     assert (Bb : bk sb = BEpoll) by congruence.
+    assert (PHa : forallb phase_act_ok (concat (phases sa)) = true).
+    { destruct A1 as (sg0 & h0 & G0). apply (gt_ph _ _ _ _ _ _ G0). }
     assert (Eb : EP (map fst post ++ []) sb).
-    { rewrite app_nil_r. apply EP_handle_wakeup; auto. apply A1. }
+    { rewrite app_nil_r. apply EP_handle_wakeup; auto. }
     assert (CRb : CReg sb) by (apply CReg_handle_wakeup; auto).
     assert (Hregb : forall y, In y (map fst post) -> In y (ereg sb)).
     { intros y Hy. destruct (e_ereg _ _ W11) as [l ->]. apply in_or_app. left.
@@ -1543,18 +1896,24 @@ Proof.
       intro C. apply (DISJ y C Hy). }
     assert (OKb : EvOK sb post).
     { intros y f H. destruct (OK y f) as (L & HT & Z); [apply in_or_app; right; right; auto|].
-      split; auto. split; auto. intros Y0. apply Htc_handle_wakeup. rewrite A9; auto.
+      split; auto. split; auto. intros Y0. apply Htc_handle_wakeup. apply A9; auto.
       intro C. apply (DISJ y C). apply in_map_iff. exists (y, f). auto. }
-    destruct (ep_walk_ctx post [] sb sg' GIb Bb N0b NDb Hregb OKb Eb CRb) as (P1 & P2 & P3 & P4 & P5 & P6 & P7 & P8 & P9 & P10 & P11).
-    exists sg'. split; auto. split; auto. split; [congruence|]. split; auto. split; auto.
+    destruct (ep_walk_ctx post [] E' U' sb W1 Bb N0b NDb Hregb OKb Eb CRb) as (P1 & P2 & P3 & P4 & P5 & P6 & P7 & P8 & P9 & P10).
+    exists E', U'. split; auto. split; auto. split; [congruence|]. split; auto. split; auto.
     split; [intros _; congruence|]. split.
     + intros ID. rewrite P5, P4. split; auto. apply (W12 ltac:(congruence)).
-    + rewrite P4, P6. intros C. destruct (W13 C) as (_ & PHe & X1 & X2). split; auto.
-      intros Q. apply P11. eapply Quiet_view; [apply X1|apply X2|]. auto.
+    + rewrite P4, P6. intros C. destruct (W13 C) as (_ & _ & PHe & X1 & X2). split; auto.
+      (* exit happens in the idle iteration only: the batch is the wake event alone *)
+      assert (IDa : idle sa = true).
+      { destruct (idle sa) eqn:K; auto. destruct (W12 eq_refl) as (_ & _ & T & _). congruence. }
+      rewrite A5 in IDa. destruct (QI IDa) as [Q ALL0].
+      assert (post = []) as ->.
+      { destruct post as [|[y f] post]; auto. exfalso. apply N0b. simpl. left. apply ALL0. apply in_or_app. right. simpl. auto. }
+      simpl. eapply Quiet_view; [apply X1|apply X2|]. apply QIa. congruence.
   - (* context events only *)
     assert (E' : EP (map fst evs ++ []) s) by (rewrite app_nil_r; auto).
-    destruct (ep_walk_ctx evs [] s sg GIs B H0 ND Hreg OK E' CR) as (A1 & A2 & A3 & A4 & A5 & A6 & A7 & A8 & A9 & A10 & A11).
-    exists sg. split; auto. split; auto. split; auto. split; auto. split; auto.
+    destruct (ep_walk_ctx evs [] E U s GXs B H0 ND Hreg OK E' CR) as (A1 & A2 & A3 & A4 & A5 & A6 & A7 & A8 & A9 & A10).
+    exists E, U. split; auto. split; auto. split; auto. split; auto. split; auto.
     split; [intros C; contradiction|]. split; [intros ID; split; congruence|].
     intros C. congruence.
 Qed.
@@ -1573,44 +1932,56 @@ Proof.
     destruct Hz as [Hz|Hz]; [congruence|]. apply IH; auto. intros y Hy. apply Hot. right; auto.
 Qed.
 
+Lemma ep_scan_only : forall rdl cap s z, (forall y, In y rdl -> y <> z -> events s y = 0) ->
+  forall x, In x (map fst (fst (ep_scan cap rdl s))) -> x = z.
+Proof.
+  induction rdl as [|a r IH]; intros cap s z Hot x Hx; simpl in Hx; [destruct Hx|].
+  destruct cap as [|c]; [destruct Hx|].
+  destruct (Nat.eqb (events s a) 0) eqn:Ev.
+  - eapply (IH (S c)); eauto. intros y Hy. apply Hot. right; auto.
+  - destruct (ep_scan c r s) as [rp rest] eqn:SC. simpl in Hx. destruct Hx as [<-|Hx].
+    + destruct (Nat.eq_dec a z); auto. apply Nat.eqb_neq in Ev. exfalso. apply Ev. apply Hot; auto. left; auto.
+    + apply (IH c s z) with (x := x); [intros y Hy; apply Hot; right; auto|]. rewrite SC. auto.
+Qed.
+
 Lemma live_events : forall c, events_c c <> 0 -> Live (events_c c).
 Proof.
   intros c H. destruct (events_c_bits c) as [A B]. unfold Live. rewrite A, B.
   unfold events_c in H. destruct (ev_in c), (ev_hup c); auto.
 Qed.
 
-Lemma Q_epoll : forall s sg, GI s sg -> BEp s -> bk s = BEpoll -> kern s = [] -> Quiet s.
+Lemma Q_epoll : forall E U s, GX E U s -> BEp s -> bk s = BEpoll -> kern s = [] -> Quiet s.
 Proof.
-  intros s sg GIs ((C0 & CC) & CAP & E) B K x Hx.
+  intros E U s GXs ((C0 & CC) & CAP & EPs) B K x Hx.
   unfold kern in K. rewrite B in K.
-  destruct (ep_scan_facts (erdl s) (ecap s) s (ep_nd _ _ E)) as (_ & _ & _ & _ & _ & A6).
-  assert (X0 : x <> 0) by (apply (i_reg s (gi_inv _ _ GIs) x Hx)).
+  destruct (ep_scan_facts (erdl s) (ecap s) s (ep_nd _ _ EPs)) as (_ & _ & _ & _ & _ & A6).
+  assert (X0 : x <> 0) by (apply (i_reg s (GX_inv _ _ _ GXs) x Hx)).
   destruct (Nat.eq_dec (events s x) 0) as [Z|NZ].
   - unfold events in Z. apply Nat.eqb_neq in X0. rewrite X0 in Z. auto.
   - exfalso. apply (A6 CAP); auto. exists x. split; auto.
-    destruct (ep_edge _ _ E x (CC x Hx) NZ) as [H|[]]; auto.
+    destruct (ep_edge _ _ EPs x (CC x Hx) NZ) as [H|[]]; auto.
 Qed.
 
-Lemma ep_dispatch : forall s sg, GI s sg -> bk s = BEpoll -> toexit s = false -> BEp s ->
+Lemma ep_dispatch : forall E U s, GX E U s -> bk s = BEpoll -> toexit s = false -> BEp s ->
+  (idle s = true -> Quiet s /\ forall x, In x (map fst (kern s)) -> x = 0) ->
   let s' := dispatch_epoll (kern s) s in
-  exists sg', GI s' sg' /\ bk s' = BEpoll /\ BEp s' /\
+  exists E' U', GX E' U' s' /\ bk s' = BEpoll /\ BEp s' /\
     (In 0 (map fst (kern s)) -> idle s' = false) /\
     (idle s = false -> idle s' = false /\ toexit s' = false) /\
-    (toexit s' = true -> phases s' = [] /\ (Quiet s -> Quiet s')).
+    (toexit s' = true -> phases s' = [] /\ Quiet s').
 Proof.
-  intros s sg GIs B EX (CR & CAP & E). cbv zeta.
+  intros E U s GXs B EX (CR & CAP & EPs) QI. cbv zeta.
   assert (KS : kern s = fst (ep_scan (ecap s) (erdl s) s)) by (unfold kern; rewrite B; auto).
   unfold dispatch_epoll.
-  destruct (ep_scan_facts (erdl s) (ecap s) s (ep_nd _ _ E)) as (S1 & S2 & S3 & S4 & S5 & _).
+  destruct (ep_scan_facts (erdl s) (ecap s) s (ep_nd _ _ EPs)) as (S1 & S2 & S3 & S4 & S5 & _).
   rewrite <- KS in *.
   set (evs := ep_filter [] (ereg s) (kern s)).
   set (rest := snd (ep_scan (ecap s) (erdl s) s)) in *.
   set (s1 := set_erdl (filter (fun y => negb (mem y (map fst evs))) rest) s).
   destruct (ep_filter_spec (kern s) [] (ereg s)) as [NDe He]. fold evs in NDe, He.
-  assert (GI1 : GI s1 sg).
-  { destruct GIs as [I G F PH CP FIN]. constructor; simpl; auto.
-    - eapply Inv_view; [apply sv_set_erdl|auto].
-    - eapply GC_view2; [| | | | |apply G]; auto. }
+  assert (GX1 : GX E U s1).
+  { eapply GX_view; [apply GXs| | | | | | | |]; simpl; auto.
+    eapply Inv_view; [apply sv_set_erdl|apply (GX_inv _ _ _ GXs)]. }
   assert (OK1 : EvOK s1 evs).
   { intros x e H. apply ep_filter_sub in H. destruct (S1 x e H) as (_ & -> & NZ).
     destruct (Nat.eq_dec x 0) as [->|X0].
@@ -1619,9 +1990,9 @@ Proof.
     - assert (events s x = events_c (cx s x)) as EQ.
       { unfold events. apply Nat.eqb_neq in X0. rewrite X0. auto. }
       rewrite EQ in *. split; [apply live_events; auto|]. split; [|congruence].
-      intros _. eapply Htc_events. apply (g_pc _ _ (gi_gc _ _ GIs)). }
+      intros _. destruct GXs as (sg0 & h0 & G0). eapply Htc_events. apply (g_pc _ _ (gt_gc _ _ _ _ _ _ G0)). }
   assert (E1 : EP (map fst evs) s1).
-  { destruct E as [ND SUB ED]. constructor; simpl.
+  { destruct EPs as [ND SUB ED]. constructor; simpl.
     - apply NoDup_filter. auto.
     - intros z Hz. apply filter_In in Hz. destruct Hz as [Hz _]. apply SUB. apply S4. auto.
     - intros z Hz Hev. change (events s1 z) with (events s z) in Hev.
@@ -1630,51 +2001,56 @@ Proof.
       + exfalso. apply Nn. apply ep_filter_complete; auto.
       + apply filter_In. split; auto. apply Bool.negb_true_iff.
         destruct (mem z (map fst evs)) eqn:M; auto. apply mem_In in M. contradiction. }
-  destruct (ep_batch evs s1 sg GI1 B EX NDe) as (sg' & A1 & A2 & A3 & A4 & A5 & A6 & A7 & A8); auto.
+  destruct (ep_batch evs E U s1 GX1 B EX NDe) as (E' & U' & A1 & A2 & A3 & A4 & A5 & A6 & A7 & A8); auto.
   { intros x Hx. apply He. auto. }
-  exists sg'. split; auto. split; auto. split; [split; auto; split; auto; rewrite A3; auto|].
+  { intros C. destruct (QI C) as [Q ALL0]. split; [auto|].
+    intros x Hx. apply ALL0. apply in_map_iff in Hx. destruct Hx as ([y f] & <- & H). apply ep_filter_sub in H.
+    apply in_map_iff. exists (y, f). auto. }
+  exists E', U'. split; auto. split; auto. split; [split; auto; split; auto; rewrite A3; auto|].
   split; [|split; auto].
   intros H0. apply A6. apply ep_filter_complete; auto. apply (proj1 CR).
 Qed.
 
 Lemma epoll_iter : iter_ok BEp BEpoll.
 Proof.
-  intros s sg GIs EX ID B BE. unfold iter, kern_o.
+  intros E U s GXs EX ID B BE. unfold iter, kern_o.
   destruct (kern s) as [|p r] eqn:K.
   - (* idle *)
-    pose proof (Q_epoll s sg GIs BE B K) as Q.
-    destruct BE as (CR & CAP & E).
+    pose proof (Q_epoll E U s GXs BE B K) as Q.
+    destruct BE as (CR & CAP & EPs).
     simpl. unfold dispatch.
     set (s0 := inject s).
     assert (B0 : bk s0 = BEpoll) by (unfold s0, inject; simpl; rewrite bk_edge; auto).
     rewrite B0.
-    pose proof (GI_inject s sg GIs) as GI0. fold s0 in GI0.
+    pose proof (GX_inject E U s GXs) as GX0. fold s0 in GX0.
     assert (EX0 : toexit s0 = false) by (unfold s0, inject; simpl; rewrite toexit_edge; auto).
     assert (R0 : ereg s0 = ereg s) by (unfold s0, inject; simpl; rewrite ereg_edge; auto).
     assert (CX0 : cx s0 = cx s) by (unfold s0, inject; simpl; rewrite cx_edge; auto).
     assert (CL0 : clist s0 = clist s) by (unfold s0, inject; simpl; rewrite clist_edge; auto).
     assert (E0 : EP [] s0).
-    { unfold s0, inject. eapply EP_same; [| | |eapply (EP_touch [] 0 s (set_wk (S (wk s)) s)); [| | |apply E]]; simpl; auto.
+    { unfold s0, inject. eapply EP_same; [| | |eapply (EP_touch [] 0 s (set_wk (S (wk s)) s)); [| | |apply EPs]]; simpl; auto.
       intros z Hz. unfold events. apply Nat.eqb_neq in Hz. rewrite Hz. auto. }
     assert (BE0 : BEp s0).
     { destruct CR as [CR0 CRC]. split; [split; rewrite ?R0, ?CL0; auto|]. split; auto.
       unfold s0, inject. simpl. unfold edge. destruct (_ && _); auto. }
     assert (EV00 : events s0 0 = 1) by (unfold events, s0, inject; simpl; rewrite wk_edge; simpl; auto).
+    assert (OTH0 : forall y, In y (erdl s0) -> y <> 0 -> events s0 y = 0).
+    { intros y Hy Hne. pose proof (ep_sub _ _ E0 y Hy) as Hr. rewrite R0 in Hr.
+      destruct (i_ereg s (GX_inv _ _ _ GXs) B y Hr) as [->|Hc]; [congruence|].
+      unfold events. apply Nat.eqb_neq in Hne. rewrite Hne, CX0. apply Q; auto. }
     assert (IN0 : In 0 (map fst (kern s0))).
-    { unfold kern. rewrite B0. apply ep_scan_single; auto; [apply BE0| | |].
-      - destruct (ep_edge _ _ E0 0) as [H|[]]; auto; [rewrite R0; apply (proj1 CR)|congruence].
-      - congruence.
-      - intros y Hy Hne. pose proof (ep_sub _ _ E0 y Hy) as Hr. rewrite R0 in Hr.
-        destruct (i_ereg s (gi_inv _ _ GIs) B y Hr) as [->|Hc]; [congruence|].
-        unfold events. apply Nat.eqb_neq in Hne. rewrite Hne, CX0. apply Q; auto. }
-    destruct (ep_dispatch s0 sg GI0 B0 EX0 BE0) as (sg' & A1 & A2 & A3 & A4 & A5 & A6).
-    exists sg'. split; auto. split; auto. split; auto. split; auto.
-    intros C. destruct (A6 C) as [P Qs]. split; auto. apply Qs.
-    eapply Quiet_view; [apply CX0|apply CL0|auto].
+    { unfold kern. rewrite B0. apply ep_scan_single; auto; [apply BE0| |congruence].
+      destruct (ep_edge _ _ E0 0) as [H|[]]; auto; [rewrite R0; apply (proj1 CR)|congruence]. }
+    assert (ALL0 : forall x, In x (map fst (kern s0)) -> x = 0).
+    { unfold kern. rewrite B0. apply ep_scan_only. auto. }
+    assert (Q0 : Quiet s0) by (eapply Quiet_view; [apply CX0|apply CL0|auto]).
+    destruct (ep_dispatch E U s0 GX0 B0 EX0 BE0 (fun _ => conj Q0 ALL0)) as (E' & U' & A1 & A2 & A3 & A4 & A5 & A6).
+    exists E', U'. split; auto.
   - simpl. unfold dispatch. rewrite B. rewrite <- K.
-    destruct (ep_dispatch s sg GIs B EX BE) as (sg' & A1 & A2 & A3 & A4 & A5 & A6).
+    destruct (ep_dispatch E U s GXs B EX BE) as (E' & U' & A1 & A2 & A3 & A4 & A5 & A6).
+    { intros C. congruence. }
     destruct (A5 ID) as [A51 A52].
-    exists sg'. split; auto. split; auto. split; auto. split; auto. intros C. congruence.
+    exists E', U'. split; [auto|]. split; [auto|]. split; [auto|]. split; [auto|]. intros C. congruence.
 Qed.
 End FlatRun.
 
@@ -1726,21 +2102,45 @@ Proof.
     + rewrite ?L, ?R; auto.
 Qed.
 
-Lemma flat_parts : forall sc, flat sc = true ->
-  s_trigs sc = [] /\ forallb phase_act_ok (concat (s_phases sc)) = true /\
+(* ------------------------------------------------------------------ the class: triggers that write *)
+(* SW: every read-callback trigger writes to some context's peer (threshold >= 1, no two identical
+   trigger lines); every other action is issued before run() or from an idle phase; no scripted
+   exit / shutdown; the adds fit hints_max_fd.  [flat] is the special case without triggers. *)
+Definition sw (sc : script) : bool :=
+  forallb (fun t => is_write (tact t) && Nat.leb 1 (tbytes t)) (s_trigs sc) && nodupb (s_trigs sc) &&
+  forallb phase_act_ok (concat (s_phases sc)) &&
+  Nat.leb (count_adds (concat (s_phases sc))) (if Nat.ltb (s_hints sc) 1 then 8 else s_hints sc).
+
+Definition spec_outcome_sw (sc : script) (x : nat) : nat * bool * bool :=
+  let d := cx (spec_sw sc) x in
+  if cregok d then (cq d, ceof d, negb (ceof d)) else (0, false, false).
+
+Lemma sw_parts : forall sc, sw sc = true ->
+  (forall t, In t (s_trigs sc) -> is_write (tact t) = true /\ 1 <= tbytes t) /\ NoDup (s_trigs sc) /\
+  forallb phase_act_ok (concat (s_phases sc)) = true /\
   count_adds (concat (s_phases sc)) <= (if Nat.ltb (s_hints sc) 1 then 8 else s_hints sc).
+Proof.
+  intros sc H. unfold sw in H. apply Bool.andb_true_iff in H. destruct H as [H H4].
+  apply Bool.andb_true_iff in H. destruct H as [H H3]. apply Bool.andb_true_iff in H. destruct H as [H1 H2].
+  split.
+  - intros t Ht. pose proof (proj1 (forallb_forall _ _) H1 t Ht) as K.
+    apply Bool.andb_true_iff in K. destruct K as [K1 K2]. apply Nat.leb_le in K2. auto.
+  - split; [apply nodupb_NoDup; auto|]. split; auto. apply Nat.leb_le. auto.
+Qed.
+
+Lemma flat_sw : forall sc, flat sc = true -> sw sc = true.
 Proof.
   intros sc H. unfold flat in H. apply Bool.andb_true_iff in H. destruct H as [H H3].
   apply Bool.andb_true_iff in H. destruct H as [H1 H2].
-  split; [destruct (s_trigs sc); auto; discriminate|]. split; auto. apply Nat.leb_le. auto.
+  unfold sw. destruct (s_trigs sc); [|discriminate]. simpl. rewrite H2, H3. auto.
 Qed.
 
-Lemma start_GI : forall b sc, flat sc = true ->
-  exists sg0, GI (spec_state sc) (start b sc) sg0 /\ toexit (start b sc) = false /\ idle (start b sc) = false /\
-    bk (start b sc) = b /\
-    match b with BSelect => BSel (start b sc) | BPoll => True | BEpoll => BEp (start b sc) end.
+Lemma start_GX : forall b sc, sw sc = true ->
+  GX (spec_sw sc) (do_acts (hd [] (s_phases sc)) (init BSelect sc)) (s_trigs sc) (start b sc) /\
+  toexit (start b sc) = false /\ idle (start b sc) = false /\ bk (start b sc) = b /\
+  match b with BSelect => BSel (start b sc) | BPoll => True | BEpoll => BEp (start b sc) end.
 Proof.
-  intros b sc FL. destruct (flat_parts sc FL) as (T & PH & CAP).
+  intros b sc SW. destruct (sw_parts sc SW) as (W & NDU & PH & CAP).
   set (p0 := hd [] (s_phases sc)). set (rest := tl (s_phases sc)).
   assert (CC : concat (s_phases sc) = p0 ++ concat rest).
   { unfold p0, rest. destruct (s_phases sc); simpl; auto. }
@@ -1751,37 +2151,42 @@ Proof.
     - intros x. unfold c0. constructor; simpl; auto; intros; discriminate.
     - intros x. unfold c0. simpl. split; [intros; discriminate|intros [[]|H]; discriminate]. }
   assert (F0 : Fl (init b sc)) by (intros x H; unfold init, c0 in H; simpl in H; discriminate).
-  destruct (lock_do_acts p0 (init b sc) (init BSelect sc) (count_adds (concat rest)) PH0 (Inv_init b sc) G0 F0)
+  destruct (lock_do_acts p0 (init b sc) (init BSelect sc) (count_adds (concat rest)) PH0 (Inv_init b sc) G0)
     as (A1 & A2 & A3 & A4 & A5 & A6 & A7 & A8 & A9).
   { simpl. intros _. lia. }
-  destruct (do_acts_facts p0 (init b sc)) as (_ & D2 & _ & _).
-  set (s1 := do_acts p0 (init b sc)) in *. set (sg0 := do_acts p0 (init BSelect sc)) in *.
-  assert (GI1 : GI (spec_state sc) s1 sg0).
-  { constructor; auto.
+  destruct (do_acts_facts p0 (init b sc)) as (D1 & D2 & _ & _).
+  set (s1 := do_acts p0 (init b sc)) in *. set (E0 := do_acts p0 (init BSelect sc)) in *.
+  assert (GT1 : GT (spec_sw sc) E0 (s_trigs sc) None s1 E0 []).
+  { apply mkGT.
+    - auto.
+    - auto.
+    - eapply flagsame_Fl; eauto.
     - rewrite D2. simpl. auto.
     - rewrite D2, A6. simpl. rewrite A5. simpl. intros Bp. specialize (A4 Bp). simpl in A4. exact A4.
-    - rewrite D2. simpl. fold rest. unfold sg0, spec_state. rewrite CC, do_acts_app. auto. }
+    - rewrite D2. simpl. reflexivity.
+    - reflexivity.
+    - rewrite D1. simpl. symmetry. rewrite <- (filter_true (s_trigs sc)) at 2. apply filter_ext. intros t. auto.
+    - auto.
+    - constructor.
+    - intros t [].
+    - auto.
+    - intros pre t post Eq. destruct pre; discriminate.
+    - rewrite D1. simpl. intros t Ht. destruct (A3 (tctx t)) as (_ & _ & _ & CF). rewrite CF. simpl.
+      apply (W t Ht).
+    - unfold E0. rewrite bk_do_acts. auto. }
   simpl in A5, A8, A9.
   destruct b.
-  - exists sg0. unfold start. fold p0 s1. split; auto. split; auto. split; auto. split; auto.
+  - unfold start. fold p0 s1. split; [exists E0, []; auto|]. split; auto. split; auto. split; auto.
     apply BSel_do_acts; auto. split; [simpl; auto|]. split; [intros x []|].
     intros z Hz. simpl in Hz. destruct Hz as [<-|[]]; auto.
-  - exists sg0. unfold start. fold p0 s1. auto.
-  - exists sg0. unfold start. fold p0 s1.
+  - unfold start. fold p0 s1. split; [exists E0, []; auto|]. auto.
+  - unfold start. fold p0 s1.
     assert (CS : forall x, In x (clist s1) -> In x (ereg s1)).
     { apply csub_ereg_do_acts; auto; intros x []. }
     assert (E1 : EP [] s1).
     { apply EP_do_acts; auto. constructor; simpl; auto; try constructor; intros z []. }
     unfold backend_add. rewrite A5. simpl.
     set (s2 := set_ereg (ereg s1 ++ [0]) s1).
-    assert (GI2 : forall s3, cx s3 = cx s2 -> clist s3 = clist s2 -> trigs s3 = trigs s2 -> phases s3 = phases s2 ->
-              bk s3 = bk s2 -> Inv s3 -> GI (spec_state sc) s3 sg0).
-    { intros s3 X1 X2 X3 X4 X5 X6. destruct GI1 as [I G F PHH CP FIN]. constructor; auto.
-      - eapply GC_view2; [| | | | |apply G]; auto.
-      - eapply Fl_view; [|apply F]; auto.
-      - rewrite X4. auto.
-      - rewrite X5. simpl. rewrite A5. discriminate.
-      - rewrite X4. auto. }
     destruct (Inv_start BEpoll sc) as [IS _]. unfold start in IS. fold p0 s1 in IS.
     unfold backend_add in IS. rewrite A5 in IS. simpl in IS. fold s2 in IS.
     assert (E2 : EP [] (if Nat.eqb (events s2 0) 0 then s2 else edge 0 s2)).
@@ -1803,50 +2208,97 @@ Proof.
           * destruct (ED z Hz Hev) as [H|[]]. left. apply in_or_app; auto.
           * left. apply in_or_app. right; left; auto. }
     destruct (Nat.eqb (events s2 0) 0); simpl.
-    + split; [apply GI2; auto|]. split; auto. split; auto. split; auto.
+    + split; [exists E0, []; eapply GT_view; [apply GT1|apply IS| | | | | | |]; auto|].
+      split; auto. split; auto. split; auto.
       split; [split; simpl; [apply in_or_app; right; left; auto|intros x Hx; apply in_or_app; left; auto]|].
       split; [simpl; rewrite A7; simpl; lia|auto].
-    + split; [apply GI2; rewrite ?cx_edge, ?clist_edge, ?trigs_edge, ?phases_edge, ?bk_edge; auto|].
+    + split; [exists E0, []; eapply GT_view; [apply GT1|apply IS| | | | | | |];
+              rewrite ?cx_edge, ?clist_edge, ?trigs_edge, ?phases_edge, ?bk_edge, ?pcap_edge, ?parr_edge; auto|].
       split; [rewrite toexit_edge; auto|]. split; [rewrite idle_edge; auto|]. split; [rewrite bk_edge; auto|].
       split; [split; rewrite ?ereg_edge, ?clist_edge; simpl; [apply in_or_app; right; left; auto|intros x Hx; apply in_or_app; left; auto]|].
       split; [unfold edge; destruct (_ && _); simpl; rewrite A7; simpl; lia|auto].
 Qed.
 
 (* ------------------------------------------------------------------ the theorems *)
-(* every back-end, on a flat script, ends with the outcome the specification computes *)
-Theorem flat_outcome : forall sc, flat sc = true -> forall b fuel s',
-  runks b sc fuel = (s', true) -> forall x, outcome s' x = spec_outcome sc x.
+(* every back-end, on a script of class SW, ends with the outcome the specification computes *)
+Theorem sw_outcome : forall sc, sw sc = true -> forall b fuel s',
+  runks b sc fuel = (s', true) -> forall x, outcome s' x = spec_outcome_sw sc x.
 Proof.
-  intros sc FL b fuel s' R x. unfold runks in R.
-  destruct (start_GI b sc FL) as (sg0 & GI0 & EX & ID & B & BI).
-  assert (exists s1, s' = finish s1 /\ GI (spec_state sc) s1 (spec_state sc) /\ Quiet s1) as (s1 & -> & G1 & Q1).
+  intros sc SW b fuel s' R x. unfold runks in R.
+  destruct (start_GX b sc SW) as (GX0 & EX & ID & B & BI).
+  assert (exists s1 E1 U1, s' = finish s1 /\ GX (spec_sw sc) E1 U1 s1 /\ phases s1 = [] /\ Quiet s1) as (s1 & E1 & U1 & -> & G1 & P1 & Q1).
   { destruct b.
-    - eapply (runk_flat (spec_state sc) BSel BSelect); eauto. intros s sg. apply sel_iter.
-    - eapply (runk_flat (spec_state sc) (fun _ => True) BPoll); eauto. apply poll_iter.
-    - eapply (runk_flat (spec_state sc) BEp BEpoll); eauto. apply epoll_iter. }
-  rewrite (final_outcome (spec_state sc) s1 x G1 Q1). reflexivity.
+    - eapply (runk_flat (spec_sw sc) BSel BSelect); eauto. apply sel_iter.
+    - eapply (runk_flat (spec_sw sc) (fun _ => True) BPoll); eauto. apply poll_iter.
+    - eapply (runk_flat (spec_sw sc) BEp BEpoll); eauto. apply epoll_iter. }
+  rewrite (final_outcome (spec_sw sc) E1 U1 s1 x G1 P1 Q1). reflexivity.
 Qed.
 
-(* agreement of select, poll and epoll on flat scripts (each loop may need a different number of
-   kernel calls) *)
-Theorem agree_flat : forall sc, flat sc = true -> forall f1 f2 f3,
+(* agreement of select, poll and epoll (each loop may need a different number of kernel calls) *)
+Theorem agree_sw : forall sc, sw sc = true -> forall f1 f2 f3,
   snd (runks BSelect sc f1) = true -> snd (runks BPoll sc f2) = true -> snd (runks BEpoll sc f3) = true ->
   forall x, outcome (fst (runks BSelect sc f1)) x = outcome (fst (runks BPoll sc f2)) x /\
             outcome (fst (runks BSelect sc f1)) x = outcome (fst (runks BEpoll sc f3)) x.
 Proof.
-  intros sc FL f1 f2 f3 H1 H2 H3 x.
+  intros sc SW f1 f2 f3 H1 H2 H3 x.
   destruct (runks BSelect sc f1) as [s1 b1] eqn:R1. destruct (runks BPoll sc f2) as [s2 b2] eqn:R2.
   destruct (runks BEpoll sc f3) as [s3 b3] eqn:R3. simpl in *. subst.
-  rewrite (flat_outcome sc FL _ _ _ R1 x), (flat_outcome sc FL _ _ _ R2 x), (flat_outcome sc FL _ _ _ R3 x). auto.
+  rewrite (sw_outcome sc SW _ _ _ R1 x), (sw_outcome sc SW _ _ _ R2 x), (sw_outcome sc SW _ _ _ R3 x). auto.
 Qed.
 
-Corollary agree_flat_same_fuel : forall sc fuel, flat sc = true ->
+Corollary agree_sw_same_fuel : forall sc fuel, sw sc = true ->
   snd (runks BSelect sc fuel) = true -> snd (runks BPoll sc fuel) = true -> snd (runks BEpoll sc fuel) = true ->
   agree sc fuel.
-Proof. intros sc fuel FL H1 H2 H3 x. apply agree_flat; auto. Qed.
+Proof. intros sc fuel SW H1 H2 H3 x. apply agree_sw; auto. Qed.
 
-(* non-vacuity: a flat script with three kinds of descriptors, late adds from an idle phase, half-close
-   and close, on which the three loops exit and agree *)
+(* the flat class: without triggers the specification is "all phases in order" *)
+Lemma spec_go_nil : forall phs E, spec_go E [] phs = do_acts (concat phs) E.
+Proof.
+  induction phs as [|p r IH]; intros E; simpl; auto.
+  unfold settle, unf. simpl. rewrite IH, do_acts_app. auto.
+Qed.
+
+Lemma spec_sw_flat : forall sc, s_trigs sc = [] -> spec_sw sc = spec_state sc.
+Proof.
+  intros sc T. unfold spec_sw, spec_state. rewrite T, spec_go_nil.
+  destruct (s_phases sc) as [|p r]; simpl; auto. rewrite do_acts_app. auto.
+Qed.
+
+Theorem flat_outcome : forall sc, flat sc = true -> forall b fuel s',
+  runks b sc fuel = (s', true) -> forall x, outcome s' x = spec_outcome sc x.
+Proof.
+  intros sc FL b fuel s' R x. rewrite (sw_outcome sc (flat_sw sc FL) b fuel s' R x).
+  unfold spec_outcome_sw, spec_outcome. rewrite spec_sw_flat; auto.
+  unfold flat in FL. destruct (s_trigs sc); auto. discriminate.
+Qed.
+
+Theorem agree_flat : forall sc, flat sc = true -> forall f1 f2 f3,
+  snd (runks BSelect sc f1) = true -> snd (runks BPoll sc f2) = true -> snd (runks BEpoll sc f3) = true ->
+  forall x, outcome (fst (runks BSelect sc f1)) x = outcome (fst (runks BPoll sc f2)) x /\
+            outcome (fst (runks BSelect sc f1)) x = outcome (fst (runks BEpoll sc f3)) x.
+Proof. intros sc FL. apply agree_sw. apply flat_sw. auto. Qed.
+
+(* non-vacuity: descriptors of three kinds, late adds from an idle phase, half-close and close, and
+   read-callback triggers that write - including a chain 1 -> 2 -> 3, two writers into 3, a context
+   writing to itself, a trigger on a context that is registered only later, and one that never
+   fires - on which the three loops exit and agree with the specification *)
+Definition sw_example : script :=
+  mkScr 4 [(1, KPipe); (2, KUnix); (3, KTcp); (4, KPipe)]
+        [[AAdd 2; AAdd 1; AWrite 1 5; AWrite 3 9; AWake];
+         [AAdd 3; AWrite 2 7; AHclose 1; AWrite 1 4];
+         [APclose 2; AAdd 4; AWrite 4 6; AWrite 3 1]]
+        [mkT 1 3 (AWrite 2 4); mkT 2 4 (AWrite 3 2); mkT 1 5 (AWrite 3 8); mkT 3 12 (AWrite 3 1);
+         mkT 3 15 (AWrite 4 2); mkT 4 8 (AWrite 1 3); mkT 2 50 (AWrite 1 1)].
+
+Example agree_sw_nonvacuous :
+  sw sw_example = true /\ in_S sw_example = true /\
+  snd (runks BSelect sw_example 30) = true /\ snd (runks BPoll sw_example 30) = true /\
+  snd (runks BEpoll sw_example 30) = true /\
+  map (outcome (fst (runks BPoll sw_example 30))) [1; 2; 3; 4] = map (spec_outcome_sw sw_example) [1; 2; 3; 4] /\
+  map (spec_outcome_sw sw_example) [1; 2; 3; 4] =
+    [(5, true, false); (11, true, false); (21, false, true); (8, false, true)].
+Proof. vm_compute. repeat split; reflexivity. Qed.
+
 Definition flat_example : script :=
   mkScr 4 [(1, KPipe); (2, KUnix); (3, KTcp); (4, KPipe)]
         [[AAdd 2; AAdd 1; AWrite 1 5; AWrite 3 9; AWake];
